@@ -2,12 +2,14 @@
    events of the activation's path in the trace: the registered deferred entries are exactly the
    defer entries of the task below the index at which the command loop stands; once the loop is
    over they are popped one by one, every DeferShell entry popped is announced and then executed,
-   nothing else is; an activation that returned popped all of them.  From this: mon_C14 without
-   its EXIT_CODE conjunct for every program, configuration and schedule (safety in every reachable
-   state, completeness for completed runs); EXIT_CODE seen by the deferred commands is the exit
-   status of the activation's own failing command or 0; it is exactly that exit status when no
-   failing command ended under a cancelled context.  The EXIT_CODE conjunct of mon_C14 as stated
-   (0 only when a command outside the subtree failed) is refuted in the model (end of file). *)
+   nothing else is; an activation that returned popped all of them; EXIT_CODE seen by the deferred
+   commands is the exit status of the activation's own failing command, or 0 when that command
+   ended under a cancelled context.  A second invariant shows that a context seen by a running
+   activation is cancelled only after an error occurred somewhere (guard error, call counter, or a
+   failing command), and a counting argument shows that the call counter cannot trip when the
+   expanded call tree of the program is smaller than MaximumTaskCall.  Together: mon_C14 for every
+   program, configuration and schedule - safety in every reachable state (defer_safety),
+   completeness for completed runs (defer_complete). *)
 From Coq Require Import List Arith Bool Lia Sorted.
 Import ListNotations.
 From TV Require Import Exec.Model Exec.Monitors Exec.Facts Exec.InvSlots Exec.Proj Exec.InvPaths Exec.Frame
@@ -1031,3 +1033,1404 @@ Proof.
   apply forallb_ext'. intros a. unfold c14_core. rewrite la_obs.
   unfold dann_of, dprobes_of, finished_acts. rewrite !flat_map_obs by reflexivity. reflexivity.
 Qed.
+
+(* ================================================================== *)
+(* EXIT_CODE, the cause of cancellations.  As long as no error has occurred anywhere (the
+   "error-free regime": no activation carries an error result, no errgroup error is set), the only
+   contexts ever cancelled are the execution contexts of dedup owners that completed, and everything
+   below such a context has returned; so no running activation sees a cancelled context.  The
+   regime is left only through a guard error (excluded statically by no_guard_errors), the call
+   counter (error 204) or a failing command; hence: a failing command that ends under a cancelled
+   context has, unless the call counter tripped, a failing command of another activation before it
+   in the trace - which is the excuse mon_C14 accepts for EXIT_CODE = 0. *)
+
+(* ------------------------------------------------------------------ *)
+(* the shape of a step in a state where no error has occurred yet      *)
+
+Definition donepc (q : pc) : bool := match q with PDone _ => true | _ => false end.
+Definition fin (q : pc) : bool := match q with PRelease _ | PDone _ => true | _ => false end.
+Definition rclean (r : res) : bool := match r with ROk => true | RErr _ => false end.
+Definition pc_clean (q : pc) : bool :=
+  match q with
+  | PWReacq r | PCallReacq _ r | PDefers r | PDRun r _ | PDProbe r _ | PDCallWait r _ | PDCallReacq r
+  | PEnd r | PRelease r | PDone r => rclean r
+  | PFail _ => false
+  | _ => true
+  end.
+Definition waiting_pc (q : pc) : bool :=
+  match q with PDepsJoin | PCallWait _ _ | PDCallWait _ _ => true | _ => false end.
+
+Definition parents (s : state) : list (option nat) := map cx_parent (ctxs s).
+Definition flagged (s : state) (k : nat) : Prop :=
+  exists r, nth_error (ctxs s) k = Some r /\ cx_cancelled r = true.
+
+(* the events with which a run leaves the error-free regime *)
+Definition callcount_trips (c : cfg) (s : state) (x : act) : Prop :=
+  a_pc x = PEntry /\ Nat.leb (cf_maxcall c) (S (nth (a_task x) (calls s) 0)) = true.
+
+Definition excusing (p : prog) (c : cfg) (s : state) (x : act) (e : event) : Prop :=
+  (e = EvEnd (a_path x) (RErr (ECode 204)) /\ callcount_trips c s x) \/
+  exists i, e = EvProbeEnd (a_path x) i /\ failing_tk (get_task p (a_task x)) i = true.
+
+Inductive ckind (s : state) (a : nat) (x x' : act) (news : list act) (np : list (option nat)) : Prop :=
+| CPlain :
+    news = [] -> np = [] -> a_ectx x' = a_ectx x -> a_gctx x' = a_gctx x -> a_regkey x' = a_regkey x ->
+    a_kids x' = a_kids x -> waiting_pc (a_pc x') = false ->
+    (a_pc x = PDepsJoin -> all_done s (a_kids x) = true) ->
+    (forall i cid, a_pc x = PCallWait i cid -> act_result s cid <> None) ->
+    (forall r cid, a_pc x = PDCallWait r cid -> act_result s cid <> None) ->
+    (fin (a_pc x) = true -> fin (a_pc x') = true) ->
+    ckind s a x x' news np
+| COwner :
+    news = [] -> np = [Some (a_ctx x)] -> a_pc x = PDedup -> a_pc x' = PDepsFork ->
+    a_ectx x' = length (ctxs s) -> a_gctx x' = a_gctx x -> a_regkey x' <> None -> a_kids x' = a_kids x ->
+    ckind s a x x' news np
+| CFork :
+    np = [Some (a_ectx x)] -> a_pc x = PDepsFork -> a_pc x' = PDepsJoin ->
+    a_ectx x' = a_ectx x -> a_gctx x' = length (ctxs s) -> a_regkey x' = a_regkey x ->
+    a_kids x' = seq (length (acts s)) (length news) ->
+    Forall (fun y => a_kind y = KDep /\ a_ctx y = length (ctxs s)) news ->
+    ckind s a x x' news np
+| CCall i :
+    np = [] -> a_pc x = PCmd i -> a_pc x' = PCallWait i (length (acts s)) ->
+    a_ectx x' = a_ectx x -> a_gctx x' = a_gctx x -> a_regkey x' = a_regkey x -> a_kids x' = a_kids x ->
+    (exists y, news = [y] /\ a_kind y = KCall /\ a_ctx y = a_ectx x) ->
+    ckind s a x x' news np
+| CDCall r :
+    np = [] -> a_pc x = PDefers r -> a_pc x' = PDCallWait r (length (acts s)) ->
+    a_ectx x' = a_ectx x -> a_gctx x' = a_gctx x -> a_regkey x' = a_regkey x -> a_kids x' = a_kids x ->
+    (exists y, news = [y] /\ a_kind y = KDefer /\ a_ctx y = background_ctx) ->
+    ckind s a x x' news np.
+
+Record cshape (s s' : state) (a : nat) (x x' : act) (news : list act) (np : list (option nat)) : Prop := {
+  cs_acts : acts s' = upd (acts s) a x' ++ news;
+  cs_static : a_path x' = a_path x /\ a_kind x' = a_kind x /\ a_parent x' = a_parent x /\
+              a_gerr x' = a_gerr x /\ a_ctx x' = a_ctx x;
+  cs_clean : pc_clean (a_pc x') = true;
+  cs_news_ok : Forall (fun y => a_pc y = PEntry /\ a_parent y = Some a /\ a_gerr y = None /\ a_regkey y = None /\
+                               a_kids y = [] /\ a_ectx y = a_ctx y /\ a_gctx y = a_ctx y) news;
+  cs_parents : parents s' = parents s ++ np;
+  cs_flags : forall k, flagged s' k ->
+             flagged s k \/ (exists r, a_pc x = PEnd r /\ a_pc x' = PRelease r /\ a_regkey x <> None /\ k = a_ectx x);
+  cs_kind : ckind s a x x' news np
+}.
+
+Lemma acquire_ctxs c s : ctxs (acquire c s) = ctxs s.
+Proof. unfold acquire. destruct (limited c); reflexivity. Qed.
+Lemma release_ctxs c s : ctxs (release c s) = ctxs s.
+Proof. unfold release. destruct (limited c); reflexivity. Qed.
+
+Lemma notify_ok s x : notify_parent s x ROk = s.
+Proof. unfold notify_parent. destruct (a_kind x), (a_parent x); reflexivity. Qed.
+
+Lemma finish_ok_acts s a x : acts (finish s a x ROk) = upd (acts s) a (set_pc x (PDone ROk)).
+Proof. unfold finish. rewrite notify_ok. destruct (a_kind x); reflexivity. Qed.
+Lemma finish_ok_ctxs s a x : ctxs (finish s a x ROk) = ctxs s.
+Proof. unfold finish. rewrite notify_ok. destruct (a_kind x); reflexivity. Qed.
+
+Lemma parents_cancel s k : parents (cancel_ctx s k) = parents s.
+Proof.
+  unfold parents, cancel_ctx. destruct (nth_error (ctxs s) k) as [r|] eqn:E; [|reflexivity]. simpl.
+  rewrite map_upd. simpl. apply upd_same. rewrite nth_error_map, E. reflexivity.
+Qed.
+
+Lemma flagged_cancel s k j : flagged (cancel_ctx s k) j -> flagged s j \/ j = k.
+Proof.
+  unfold flagged, cancel_ctx. destruct (nth_error (ctxs s) k) as [r|] eqn:E; [|auto]. simpl.
+  intros [r' [Hr Hc]]. destruct (Nat.eq_dec k j) as [->|Hne]; [right; reflexivity|left].
+  rewrite nth_error_upd_other in Hr by exact Hne. exists r'. split; assumption.
+Qed.
+
+Lemma flagged_same s s' : ctxs s' = ctxs s -> forall k, flagged s' k -> flagged s k.
+Proof. unfold flagged. intros ->. auto. Qed.
+
+Lemma flagged_app s s' r : ctxs s' = ctxs s ++ [r] -> cx_cancelled r = false -> forall k, flagged s' k -> flagged s k.
+Proof.
+  unfold flagged. intros -> Hr k [r' [Hk Hc]].
+  destruct (Nat.lt_ge_cases k (length (ctxs s))) as [Hlt|Hge].
+  - rewrite nth_error_app1 in Hk by exact Hlt. exists r'. split; assumption.
+  - rewrite nth_error_app2 in Hk by exact Hge. destruct (k - length (ctxs s)) as [|m]; simpl in Hk.
+    + injection Hk as <-. congruence.
+    + destruct m; discriminate.
+Qed.
+
+Ltac plain_case :=
+  right; eexists; exists [], []; constructor;
+  [ rewrite ?finish_ok_acts; simpl; rewrite ?acquire_acts, ?release_acts, ?cancel_ctx_acts, ?app_nil_r; reflexivity
+  | simpl; repeat split; reflexivity
+  | simpl; first [reflexivity | assumption]
+  | constructor
+  | unfold parents; rewrite ?finish_ok_ctxs; simpl; rewrite ?acquire_ctxs, ?release_ctxs, ?app_nil_r; reflexivity
+  | let kk := fresh "kk" in let Hkk := fresh "Hkk" in intros kk Hkk; left; revert kk Hkk; apply flagged_same; rewrite ?finish_ok_ctxs; simpl;
+    rewrite ?acquire_ctxs, ?release_ctxs; reflexivity
+  | apply CPlain; repeat match goal with Hp : a_pc ?x = _ |- context [a_pc ?x] => rewrite Hp end; simpl; try reflexivity; try discriminate; intros; try discriminate; try assumption;
+    try (match goal with Hq : PCallWait _ _ = PCallWait _ _ |- _ => injection Hq as <- <- end; congruence);
+    try (match goal with Hq : PDCallWait _ _ = PDCallWait _ _ |- _ => injection Hq as <- <- end; congruence) ].
+
+Lemma fork_deps_news p : forall ds s a x gctx j s' ids,
+  fork_deps p s a x gctx ds j = (s', ids) ->
+  exists news, acts s' = acts s ++ news /\
+    Forall (fun y => exists pa t v, y = new_act pa t v KDep (Some a) gctx) news.
+Proof.
+  induction ds as [|d ds IH]; intros s a x gctx j s' ids H; simpl in H.
+  - injection H as <- <-. exists []. rewrite app_nil_r. split; [reflexivity|constructor].
+  - unfold add_act in H; simpl in H.
+    match type of H with context [fork_deps ?a1 ?a2 ?a3 ?a4 ?a5 ?a6 ?a7] =>
+      destruct (fork_deps a1 a2 a3 a4 a5 a6 a7) as [s2 ids2] eqn:E end.
+    injection H as <- <-. apply IH in E. destruct E as [news [Ha Hf]]. simpl in Ha.
+    eexists (_ :: news). rewrite Ha, <- app_assoc. split; [reflexivity|].
+    constructor; [do 3 eexists; reflexivity|exact Hf].
+Qed.
+
+Definition guards_fine (c : cfg) (tk : task) : Prop :=
+  let g := t_g tk in
+  g_required g = true /\ g_enum g = true /\ g_precond g <> Some false /\ (g_prompt g && negb (cf_yes c)) = false.
+
+Lemma clean_step p c s a s' x :
+  get_act s a = Some x -> step p c s a = Some s' ->
+  pc_clean (a_pc x) = true -> a_gerr x = None ->
+  (forall j r, act_result s j = Some r -> r = ROk) ->
+  (forall j r, exec_result s j = Some r -> r = ROk) ->
+  guards_fine c (get_task p (a_task x)) ->
+  (fin (a_pc x) = false -> cancelled s (a_ectx x) = false) ->
+  (exists e, trace s' = trace s ++ [e] /\ excusing p c s x e) \/
+  (exists x' news np, cshape s s' a x x' news np).
+Proof.
+  intros Hx H Hcl Hg Hres Hexe (Hreq & Henum & Hpre & Hprompt) HG.
+  pose proof (pj_lt dq _ _ _ Hx) as Hlt.
+  step_cases H Hx; simpl in Hcl; try discriminate Hcl;
+    try (match goal with Hq : exec_result s _ = Some ?r |- _ => pose proof (Hexe _ _ Hq); subst r end);
+    try (match goal with Hq : act_result s _ = Some ?r |- _ => pose proof (Hres _ _ Hq); subst r end);
+    repeat match goal with r : res |- _ => destruct r as [|?]; [|discriminate Hcl] end;
+    try (rewrite Hreq in *; discriminate); try (rewrite Henum in *; discriminate);
+    try (rewrite Hprompt in *; discriminate); try congruence;
+    try (pose proof (HG eq_refl) as HG'; rewrite HG' in *; rewrite ?andb_false_r, ?andb_true_r in *; try discriminate;
+         try (subst; congruence));
+    try solve [plain_case].
+  - (* 204 *)
+    left. eexists. split; [rewrite trace_finish; reflexivity|]. left. split; [reflexivity|]. split; [exact Hpc|exact Heqb2].
+  - (* owner: new execution context *)
+    right. eexists; exists [], [Some (a_ctx x)]. constructor.
+    + simpl. rewrite app_nil_r. reflexivity.
+    + simpl. repeat split; reflexivity.
+    + reflexivity.
+    + constructor.
+    + unfold parents. simpl. rewrite map_app. reflexivity.
+    + intros kk Hkk. left. revert kk Hkk. eapply flagged_app; [simpl; reflexivity|reflexivity].
+    + apply COwner; simpl; try reflexivity; try assumption. discriminate.
+  - (* fork *)
+    pose proof (fork_deps_spec p _ _ _ _ _ _ _ _ Heqp0) as Hspec.
+    destruct Hspec as [news (Ha & _ & _ & _ & _ & Hcx & _ & _ & Hl & Hids & _ & _)]. simpl in Ha, Hcx, Hids.
+    destruct (fork_deps_news p _ _ _ _ _ _ _ _ Heqp0) as [news' [Ha' Hn]]. simpl in Ha'.
+    rewrite Ha in Ha'. apply app_inv_head in Ha'. subst news'.
+    rewrite release_acts in *. rewrite release_ctxs in *.
+    right. eexists; exists news, [Some (a_ectx x)]. constructor.
+    + simpl. rewrite Ha. apply upd_app_l. unfold pj in Hlt. rewrite map_length in Hlt. exact Hlt.
+    + simpl. repeat split; reflexivity.
+    + reflexivity.
+    + eapply Forall_impl; [|exact Hn]. intros y (pa & t & v & ->). simpl. repeat split; reflexivity.
+    + unfold parents. simpl. rewrite Hcx, map_app. reflexivity.
+    + intros kk Hkk. left. revert kk Hkk. eapply flagged_app; [simpl; exact Hcx|reflexivity].
+    + apply CFork; simpl; try reflexivity; try assumption.
+      * rewrite Hl. exact Hids.
+      * eapply Forall_impl; [|exact Hn]. intros y (pa & t & v & ->). simpl. split; reflexivity.
+  - (* call *)
+    right. eexists; eexists [_], []. constructor.
+    + simpl. rewrite release_acts. apply upd_app_l. unfold pj in Hlt. rewrite map_length in Hlt. exact Hlt.
+    + simpl. repeat split; reflexivity.
+    + reflexivity.
+    + constructor; [|constructor]. simpl. repeat split; reflexivity.
+    + unfold parents. simpl. rewrite release_ctxs, app_nil_r. reflexivity.
+    + intros kk Hkk. left. revert kk Hkk. apply flagged_same. simpl. apply release_ctxs.
+    + apply (CCall _ _ _ _ _ _ i); simpl; try reflexivity; try assumption.
+      eexists. split; [reflexivity|]. split; reflexivity.
+  - (* the command fails *)
+    left. eexists. split; [reflexivity|]. right. exists i. split; [reflexivity|].
+    unfold failing_tk. rewrite Heqo. simpl in *. rewrite Heqb1. reflexivity.
+  - (* deferred call *)
+    right. eexists; eexists [_], []. constructor.
+    + simpl. rewrite release_acts. apply upd_app_l. unfold pj in Hlt. rewrite map_length in Hlt. exact Hlt.
+    + simpl. repeat split; reflexivity.
+    + reflexivity.
+    + constructor; [|constructor]. simpl. repeat split; reflexivity.
+    + unfold parents. simpl. rewrite release_ctxs, app_nil_r. reflexivity.
+    + intros kk Hkk. left. revert kk Hkk. apply flagged_same. simpl. apply release_ctxs.
+    + apply (CDCall _ _ _ _ _ _ ROk); simpl; try reflexivity; try assumption.
+      eexists. split; [reflexivity|]. split; reflexivity.
+  - (* the owner completes its dedup entry *)
+    right. eexists; exists [], []. constructor.
+    + simpl. rewrite cancel_ctx_acts, app_nil_r. reflexivity.
+    + simpl. repeat split; reflexivity.
+    + reflexivity.
+    + constructor.
+    + rewrite app_nil_r. unfold parents at 1. simpl. apply parents_cancel.
+    + intros kk Hkk. assert (Hkk' : flagged (cancel_ctx s (a_ectx x)) kk) by exact Hkk.
+      apply flagged_cancel in Hkk'. destruct Hkk' as [Hf| ->]; [left; exact Hf|right].
+      exists ROk. split; [exact Hpc|]. split; [reflexivity|]. split; [congruence|reflexivity].
+    + apply CPlain; rewrite ?Hpc; simpl; try reflexivity; intros; discriminate.
+Qed.
+
+
+(* ------------------------------------------------------------------ *)
+(* contexts: reachability along parent pointers                         *)
+
+Inductive reach (P : list (option nat)) : nat -> nat -> Prop :=
+| reach_here k : reach P k k
+| reach_up k0 q k : nth_error P k0 = Some (Some q) -> reach P q k -> reach P k0 k.
+
+Definition par_ok (P : list (option nat)) : Prop := forall k q, nth_error P k = Some (Some q) -> q < k.
+
+Lemma reach_le P k0 k : par_ok P -> reach P k0 k -> k <= k0.
+Proof. intros HP H. induction H as [|k0 q k Hn _ IH]; [lia|]. specialize (HP _ _ Hn). lia. Qed.
+
+Lemma reach_app_l P Q k0 k : reach P k0 k -> reach (P ++ Q) k0 k.
+Proof.
+  induction 1 as [|k0 q k Hn _ IH]; [constructor|]. eapply reach_up; [|exact IH].
+  rewrite nth_error_app1; [exact Hn|]. apply nth_error_Some. rewrite Hn. discriminate.
+Qed.
+
+Lemma reach_app_inv P Q k0 k : par_ok P -> k0 < length P -> reach (P ++ Q) k0 k -> reach P k0 k.
+Proof.
+  intros HP Hlt H. induction H as [|k0 q k Hn _ IH]; [constructor|].
+  rewrite nth_error_app1 in Hn by exact Hlt. eapply reach_up; [exact Hn|]. apply IH.
+  specialize (HP _ _ Hn). lia.
+Qed.
+
+Lemma reach_fresh P q k : reach (P ++ [Some q]) (length P) k -> k = length P \/ reach (P ++ [Some q]) q k.
+Proof.
+  intros H. inversion H as [|k0 q' k' Hn Hr]; subst; [left; reflexivity|right].
+  rewrite nth_error_app2, Nat.sub_diag in Hn by lia. simpl in Hn. injection Hn as <-. exact Hr.
+Qed.
+
+Lemma reach_base P k0 k : nth_error P k0 = Some None -> reach P k0 k -> k = k0.
+Proof. intros Hn H. inversion H as [|? q ? Hn' _]; subst; [reflexivity|congruence]. Qed.
+
+Lemma cancelled_fuel_reach cx : forall f c0, cancelled_fuel f cx c0 = true ->
+  exists k r, reach (map cx_parent cx) c0 k /\ nth_error cx k = Some r /\ cx_cancelled r = true.
+Proof.
+  induction f as [|f IH]; intros c0 H; simpl in H; [discriminate|].
+  destruct (nth_error cx c0) as [r|] eqn:E; [|discriminate].
+  apply orb_true_iff in H. destruct H as [H|H].
+  - exists c0, r. split; [constructor|]. split; assumption.
+  - destruct (cx_parent r) as [q|] eqn:Eq; [|discriminate].
+    destruct (IH q H) as (k & r' & Hr & Hk & Hc). exists k, r'. split; [|split; assumption].
+    eapply reach_up; [|exact Hr]. rewrite nth_error_map, E. simpl. rewrite Eq. reflexivity.
+Qed.
+
+Lemma cancelled_reach s c0 : cancelled s c0 = true -> exists k, reach (parents s) c0 k /\ flagged s k.
+Proof.
+  unfold cancelled. intros H. destruct (cancelled_fuel_reach _ _ _ H) as (k & r & Hr & Hk & Hc).
+  exists k. split; [exact Hr|]. exists r. split; assumption.
+Qed.
+
+Definition under (s : state) (y : act) (k : nat) : Prop :=
+  reach (parents s) (a_ctx y) k \/ reach (parents s) (a_ectx y) k \/ reach (parents s) (a_gctx y) k.
+
+(* ------------------------------------------------------------------ *)
+(* the error-free regime                                               *)
+
+Definition waits (q : pc) (k : kind) (j : nat) (kids : list nat) : Prop :=
+  match k with
+  | KDep => q = PDepsJoin /\ In j kids
+  | KCall => exists i, q = PCallWait i j
+  | KDefer => exists r, q = PDCallWait r j
+  | KRoot => False
+  end.
+
+Record wf_ctx (s : state) : Prop := {
+  wf_refs : forall j y, get_act s j = Some y ->
+            a_ctx y < length (ctxs s) /\ a_ectx y < length (ctxs s) /\ a_gctx y < length (ctxs s);
+  wf_par : par_ok (parents s);
+  wf_base : nth_error (parents s) 0 = Some None /\ nth_error (parents s) 1 = Some None;
+  wf_unfl : ~ flagged s 0 /\ ~ flagged s 1;
+  wf_own : forall j y, get_act s j = Some y -> a_regkey y <> None -> 2 <= a_ectx y
+}.
+
+Record clean (s : state) : Prop := {
+  cl_wf : wf_ctx s;
+  cl_c1 : forall j y, get_act s j = Some y -> pc_clean (a_pc y) = true /\ a_gerr y = None;
+  cl_q1 : forall j y i, get_act s j = Some y -> donepc (a_pc y) = false -> a_parent y = Some i ->
+          exists px, get_act s i = Some px /\ waits (a_pc px) (a_kind y) j (a_kids px);
+  cl_sc : forall io o j y, get_act s io = Some o -> a_regkey o <> None -> get_act s j = Some y ->
+          under s y (a_ectx o) -> prefix_of_aid (a_path o) (a_path y) = true;
+  cl_c2 : forall k j y, flagged s k -> get_act s j = Some y -> under s y k -> fin (a_pc y) = true
+}.
+
+(* in the error-free regime no running activation has a cancelled context *)
+Lemma clean_uncancelled s j y :
+  clean s -> get_act s j = Some y -> fin (a_pc y) = false -> cancelled s (a_ectx y) = false.
+Proof.
+  intros Hc Hy Hf. destruct (cancelled s (a_ectx y)) eqn:E; [|reflexivity].
+  destruct (cancelled_reach _ _ E) as (k & Hr & Hk).
+  rewrite (cl_c2 _ Hc k j y Hk Hy) in Hf; [discriminate|]. right. left. exact Hr.
+Qed.
+
+Lemma clean_results s : clean s ->
+  (forall j r, act_result s j = Some r -> r = ROk) /\ (forall j r, exec_result s j = Some r -> r = ROk).
+Proof.
+  intros Hc. split; intros j r H; [unfold act_result in H|unfold exec_result in H];
+    destruct (get_act s j) as [y|] eqn:Hy; try discriminate;
+    destruct (cl_c1 _ Hc j y Hy) as [Hcl _];
+    destruct (a_pc y); try discriminate; injection H as <-; simpl in Hcl; destruct r0; [reflexivity|discriminate|reflexivity|discriminate|reflexivity|discriminate].
+Qed.
+
+(* ------------------------------------------------------------------ *)
+(* auxiliary facts                                                     *)
+
+Lemma prefix_of_aid_refl a : prefix_of_aid a a = true.
+Proof. induction a as [|x a IH]; simpl; [reflexivity|]. rewrite Nat.eqb_refl. exact IH. Qed.
+
+Lemma prefix_of_aid_app a b l : prefix_of_aid a b = true -> prefix_of_aid a (b ++ l) = true.
+Proof.
+  revert b; induction a as [|x a IH]; intros [|y b] H; simpl in *; try discriminate; [reflexivity|reflexivity|].
+  apply andb_true_iff in H. destruct H as [H1 H2]. rewrite H1. simpl. apply IH. exact H2.
+Qed.
+
+Lemma prefix_of_aid_inv a b : prefix_of_aid a b = true -> exists l, b = a ++ l.
+Proof.
+  revert b; induction a as [|x a IH]; intros b H; simpl in *; [exists b; reflexivity|].
+  destruct b as [|y b]; [discriminate|]. apply andb_true_iff in H. destruct H as [H1 H2].
+  apply Nat.eqb_eq in H1. subst y. destruct (IH b H2) as [l ->]. exists l. reflexivity.
+Qed.
+
+Lemma prefix_of_aid_intro a l : prefix_of_aid a (a ++ l) = true.
+Proof. apply prefix_of_aid_app. apply prefix_of_aid_refl. Qed.
+
+Lemma shape_get s s' a x x' news np j y :
+  cshape s s' a x x' news np -> get_act s a = Some x -> get_act s' j = Some y ->
+  (j = a /\ y = x') \/ (j <> a /\ get_act s j = Some y) \/
+  (length (acts s) <= j /\ nth_error news (j - length (acts s)) = Some y /\ In y news).
+Proof.
+  intros Hs Hx Hy. unfold get_act in *. rewrite (cs_acts _ _ _ _ _ _ _ Hs) in Hy.
+  assert (Hlt : a < length (acts s)) by (apply nth_error_Some; rewrite Hx; discriminate).
+  destruct (Nat.lt_ge_cases j (length (acts s))) as [Hj|Hj].
+  - rewrite nth_error_app1 in Hy by (rewrite upd_length; exact Hj).
+    destruct (Nat.eq_dec a j) as [<-|Hne].
+    + rewrite (nth_error_upd_same _ _ _ _ Hx) in Hy. injection Hy as <-. left. split; reflexivity.
+    + rewrite nth_error_upd_other in Hy by exact Hne. right. left. split; [congruence|exact Hy].
+  - rewrite nth_error_app2 in Hy by (rewrite upd_length; exact Hj). rewrite upd_length in Hy.
+    right. right. split; [exact Hj|]. split; [exact Hy|]. eapply nth_error_In; eauto.
+Qed.
+
+Lemma shape_get_old s s' a x x' news np j y :
+  cshape s s' a x x' news np -> get_act s a = Some x -> j <> a -> get_act s j = Some y -> get_act s' j = Some y.
+Proof.
+  intros Hs Hx Hne Hy. unfold get_act in *. rewrite (cs_acts _ _ _ _ _ _ _ Hs).
+  assert (Hj : j < length (acts s)) by (apply nth_error_Some; rewrite Hy; discriminate).
+  rewrite nth_error_app1 by (rewrite upd_length; exact Hj). rewrite nth_error_upd_other by congruence. exact Hy.
+Qed.
+
+Lemma shape_get_self s s' a x x' news np :
+  cshape s s' a x x' news np -> get_act s a = Some x -> get_act s' a = Some x'.
+Proof.
+  intros Hs Hx. unfold get_act in *. rewrite (cs_acts _ _ _ _ _ _ _ Hs).
+  assert (Hj : a < length (acts s)) by (apply nth_error_Some; rewrite Hx; discriminate).
+  rewrite nth_error_app1 by (rewrite upd_length; exact Hj). eapply nth_error_upd_same; eauto.
+Qed.
+
+(* parent and path, from the tree structure of InvUniq *)
+Lemma child_path p c s j y i :
+  inv_phase p c s -> get_act s j = Some y -> a_parent y = Some i ->
+  exists px m, get_act s i = Some px /\ a_path y = a_path px ++ [m].
+Proof.
+  intros Hph Hy Hp. destruct (ip_uniq _ _ _ Hph) as [_ Hall]. rewrite Forall_forall in Hall.
+  pose proof (pj_nth csof _ _ _ Hy) as Hn. destruct (Hall _ (nth_error_In _ _ Hn)) as (_ & _ & Hpar).
+  simpl in Hpar. rewrite Hp in Hpar. destruct Hpar as [_ (px & m & Hpx & Hpm & _)].
+  unfold pj in Hpx. rewrite nth_error_map in Hpx. destruct (nth_error (acts s) i) as [z|] eqn:Ez; [|discriminate].
+  injection Hpx as <-. exists z, m. split; [exact Ez|exact Hpm].
+Qed.
+
+Lemma root_path p c s j y :
+  inv_phase p c s -> get_act s j = Some y -> a_parent y = None -> length (a_path y) = 1.
+Proof.
+  intros Hph Hy Hp. destruct (ip_uniq _ _ _ Hph) as [_ Hall]. rewrite Forall_forall in Hall.
+  pose proof (pj_nth csof _ _ _ Hy) as Hn. destruct (Hall _ (nth_error_In _ _ Hn)) as (_ & _ & Hpar).
+  simpl in Hpar. rewrite Hp in Hpar. apply Hpar.
+Qed.
+
+Lemma path_nonempty p c s j y : inv_phase p c s -> get_act s j = Some y -> a_path y <> [].
+Proof.
+  intros Hph Hy. destruct (ip_uniq _ _ _ Hph) as [_ Hall]. rewrite Forall_forall in Hall.
+  pose proof (pj_nth csof _ _ _ Hy) as Hn. destruct (Hall _ (nth_error_In _ _ Hn)) as (_ & Hne & _). exact Hne.
+Qed.
+
+Lemma path_inj p c s i j x y :
+  inv_phase p c s -> get_act s i = Some x -> get_act s j = Some y -> a_path x = a_path y -> i = j.
+Proof.
+  intros Hph Hx Hy Hp. destruct (ip_uniq _ _ _ Hph) as [Hnd _].
+  eapply (NoDup_map_nth c_path (pj csof s) i j (csof x) (csof y)); auto; apply pj_nth; assumption.
+Qed.
+
+Lemma waits_waiting q k j kids : waits q k j kids -> waiting_pc q = true.
+Proof. destruct k; simpl; [intros []|intros [-> _]|intros [i ->]|intros [r ->]]; reflexivity. Qed.
+
+Lemma waiting_live q : waiting_pc q = true -> donepc q = false.
+Proof. destruct q; simpl; auto; discriminate. Qed.
+
+(* a running activation keeps all its ancestors waiting *)
+Lemma live_ancestors p c s : inv_phase p c s -> clean s ->
+  forall n j y io o, length (a_path y) <= n ->
+    get_act s j = Some y -> donepc (a_pc y) = false -> get_act s io = Some o ->
+    prefix_of_aid (a_path o) (a_path y) = true -> io <> j -> waiting_pc (a_pc o) = true.
+Proof.
+  intros Hph Hcl. induction n as [|n IH]; intros j y io o Hlen Hy Hlive Ho Hpre Hne.
+  - pose proof (path_nonempty p c s j y Hph Hy). destruct (a_path y); [congruence|simpl in Hlen; lia].
+  - destruct (prefix_of_aid_inv _ _ Hpre) as [l Hl].
+    destruct l as [|m0 l0] using rev_ind.
+    { rewrite app_nil_r in Hl. exfalso. apply Hne. symmetry. eapply path_inj; eauto. }
+    clear IHl0. destruct (a_parent y) as [i|] eqn:Epar.
+    + destruct (child_path p c s j y i Hph Hy Epar) as (px & m & Hpx & Hpm).
+      destruct (cl_q1 _ Hcl j y i Hy Hlive Epar) as (px' & Hpx' & Hw). rewrite Hpx in Hpx'. injection Hpx' as <-.
+      pose proof (waits_waiting _ _ _ _ Hw) as Hwp.
+      rewrite Hl, app_assoc in Hpm. apply app_inj_tail in Hpm. destruct Hpm as [Hpp _].
+      destruct l0 as [|m1 l1].
+      * rewrite app_nil_r in Hpp. assert (io = i) by (eapply path_inj; eauto). subst i.
+        rewrite Ho in Hpx. injection Hpx as <-. exact Hwp.
+      * apply (IH i px io o); auto.
+        -- rewrite Hl in Hlen. rewrite <- Hpp. rewrite !app_length in *. simpl in *. lia.
+        -- apply waiting_live. exact Hwp.
+        -- rewrite <- Hpp. apply prefix_of_aid_intro.
+        -- intros ->. rewrite Ho in Hpx. injection Hpx as <-.
+           apply (f_equal (@length nat)) in Hpp. rewrite app_length in Hpp. simpl in Hpp. lia.
+    + pose proof (root_path p c s j y Hph Hy Epar) as H1.
+      pose proof (path_nonempty p c s io o Hph Ho) as H2.
+      rewrite Hl, !app_length in H1. simpl in H1. destruct (a_path o); [congruence|simpl in H1; lia].
+Qed.
+
+(* ------------------------------------------------------------------ *)
+(* the error-free regime is preserved by steps of the clean shape       *)
+
+Section Preserve.
+  Variables (p : prog) (c : cfg) (s s' : state) (a : nat) (x x' : act) (news : list act) (np : list (option nat)).
+  Hypothesis Hph : inv_phase p c s.
+  Hypothesis Hph' : inv_phase p c s'.
+  Hypothesis Hcl : clean s.
+  Hypothesis Hx : get_act s a = Some x.
+  Hypothesis Hsh : cshape s s' a x x' news np.
+  Hypothesis Hlive : donepc (a_pc x) = false.
+
+  Let L := length (ctxs s).
+
+  Lemma plen : length (parents s) = L.
+  Proof. unfold parents. apply map_length. Qed.
+
+  Lemma L_ge_2 : 2 <= L.
+  Proof.
+    destruct (wf_base _ (cl_wf _ Hcl)) as [_ H1]. rewrite <- plen.
+    assert (1 < length (parents s)) by (apply nth_error_Some; rewrite H1; discriminate). lia.
+  Qed.
+
+  Lemma pars' : parents s' = parents s ++ np. Proof. exact (cs_parents _ _ _ _ _ _ _ Hsh). Qed.
+
+  Lemma x_refs : a_ctx x < L /\ a_ectx x < L /\ a_gctx x < L.
+  Proof. exact (wf_refs _ (cl_wf _ Hcl) a x Hx). Qed.
+
+  Lemma np_cases : np = [] \/ np = [Some (a_ctx x)] \/ np = [Some (a_ectx x)].
+  Proof.
+    destruct (cs_kind _ _ _ _ _ _ _ Hsh) as [Hn Hnp He Hgc Hrk Hkd Hw HJ HC HD HF | Hn Hnp Hpc Hpc' He Hgc Hrk Hkd
+      | Hnp Hpc Hpc' He Hgc Hrk Hkd Hnk | i Hnp Hpc Hpc' He Hgc Hrk Hkd Hnk | r Hnp Hpc Hpc' He Hgc Hrk Hkd Hnk]; auto.
+  Qed.
+
+  Lemma par_ok' : par_ok (parents s').
+  Proof.
+    rewrite pars'. intros k q Hk. pose proof (wf_par _ (cl_wf _ Hcl)) as HP. pose proof x_refs as (H1 & H2 & _).
+    destruct (Nat.lt_ge_cases k (length (parents s))) as [Hlt|Hge].
+    - rewrite nth_error_app1 in Hk by exact Hlt. exact (HP _ _ Hk).
+    - rewrite nth_error_app2 in Hk by exact Hge. rewrite plen in *.
+      destruct np_cases as [->|[->| ->]]; destruct (k - L) as [|[|m]] eqn:Ek; simpl in Hk; try discriminate;
+        injection Hk as <-; lia.
+  Qed.
+
+  (* reach in s' from an old context towards an old context is reach in s *)
+  Lemma reach_old c0 k : c0 < L -> reach (parents s') c0 k -> reach (parents s) c0 k.
+  Proof. intros Hc. rewrite pars'. apply reach_app_inv; [exact (wf_par _ (cl_wf _ Hcl))|rewrite plen; exact Hc]. Qed.
+
+  Lemma reach_new q k : np = [Some q] -> q < L -> k < L -> reach (parents s') L k -> reach (parents s) q k.
+  Proof.
+    intros Hnp Hq Hk H. rewrite pars', Hnp in H. rewrite <- plen in H. apply reach_fresh in H.
+    destruct H as [->|H]; [rewrite plen in Hk; lia|].
+    apply reach_app_inv in H; [exact H|exact (wf_par _ (cl_wf _ Hcl))|rewrite plen; exact Hq].
+  Qed.
+
+  Lemma under_old j y k : j <> a -> get_act s j = Some y -> under s' y k -> under s y k.
+  Proof.
+    intros Hne Hy. destruct (wf_refs _ (cl_wf _ Hcl) j y Hy) as (H1 & H2 & H3).
+    intros [H|[H|H]]; [left|right; left|right; right]; apply reach_old; assumption.
+  Qed.
+
+  Lemma under_self k : k < L -> under s' x' k -> under s x k.
+  Proof.
+    intros Hk. pose proof x_refs as (H1 & H2 & H3).
+    destruct (cs_static _ _ _ _ _ _ _ Hsh) as (_ & _ & _ & _ & Hc).
+    destruct (cs_kind _ _ _ _ _ _ _ Hsh) as [Hn Hnp He Hgc Hrk Hkd Hw HJ HC HD HF | Hn Hnp Hpc Hpc' He Hgc Hrk Hkd
+      | Hnp Hpc Hpc' He Hgc Hrk Hkd Hnk | i Hnp Hpc Hpc' He Hgc Hrk Hkd Hnk | r Hnp Hpc Hpc' He Hgc Hrk Hkd Hnk];
+      unfold under; rewrite Hc, He, Hgc; intros [H|[H|H]];
+      try (left; apply reach_old; assumption);
+      try (right; left; apply reach_old; assumption);
+      try (right; right; apply reach_old; assumption).
+    - left. eapply reach_new; eauto.
+    - right. left. eapply reach_new; eauto.
+  Qed.
+
+  Lemma under_new y k : In y news -> k < L -> under s' y k -> under s x k \/ k = 1.
+  Proof.
+    intros Hy Hk. pose proof x_refs as (H1 & H2 & H3).
+    pose proof (cs_news_ok _ _ _ _ _ _ _ Hsh) as Hn. rewrite Forall_forall in Hn.
+    destruct (Hn y Hy) as (_ & _ & _ & _ & _ & Hye & Hyg).
+    assert (Hu : under s' y k -> reach (parents s') (a_ctx y) k).
+    { unfold under. rewrite Hye, Hyg. tauto. }
+    intros Hund. apply Hu in Hund. clear Hu.
+    destruct (cs_kind _ _ _ _ _ _ _ Hsh) as [Hn0 Hnp He Hgc Hrk Hkd Hw HJ HC HD HF | Hn0 Hnp Hpc Hpc' He Hgc Hrk Hkd
+      | Hnp Hpc Hpc' He Hgc Hrk Hkd Hnk | i Hnp Hpc Hpc' He Hgc Hrk Hkd Hnk | r Hnp Hpc Hpc' He Hgc Hrk Hkd Hnk].
+    - rewrite Hn0 in Hy. contradiction.
+    - rewrite Hn0 in Hy. contradiction.
+    - rewrite Forall_forall in Hnk. destruct (Hnk y Hy) as [_ Hyc]. rewrite Hyc in Hund.
+      left. right. left. eapply reach_new; eauto.
+    - destruct Hnk as (y0 & Hnews & _ & Hyc). rewrite Hnews in Hy. destruct Hy as [<-|[]]. rewrite Hyc in Hund.
+      left. right. left. apply reach_old; assumption.
+    - destruct Hnk as (y0 & Hnews & _ & Hyc). rewrite Hnews in Hy. destruct Hy as [<-|[]]. rewrite Hyc in Hund.
+      right. apply reach_old in Hund; [|unfold background_ctx; pose proof L_ge_2; lia].
+      apply (reach_base _ _ _ (proj2 (wf_base _ (cl_wf _ Hcl))) Hund).
+  Qed.
+
+  Lemma len' : length (ctxs s') = L + length np.
+  Proof.
+    pose proof pars' as H. apply (f_equal (@length _)) in H. unfold parents in H at 1.
+    rewrite map_length, app_length, plen in H. exact H.
+  Qed.
+
+  Lemma news_child y : In y news -> exists m, a_path y = a_path x ++ [m].
+  Proof.
+    intros Hy. destruct (In_nth_error _ _ Hy) as [n Hn].
+    assert (Hget : get_act s' (length (acts s) + n) = Some y).
+    { unfold get_act. rewrite (cs_acts _ _ _ _ _ _ _ Hsh). rewrite nth_error_app2 by (rewrite upd_length; lia).
+      rewrite upd_length. replace (length (acts s) + n - length (acts s)) with n by lia. exact Hn. }
+    pose proof (cs_news_ok _ _ _ _ _ _ _ Hsh) as Hok. rewrite Forall_forall in Hok.
+    destruct (Hok y Hy) as (_ & Hpar & _).
+    destruct (child_path p c s' _ y a Hph' Hget Hpar) as (px & m & Hpx & Hpm).
+    rewrite (shape_get_self _ _ _ _ _ _ _ Hsh Hx) in Hpx. injection Hpx as <-.
+    exists m. rewrite Hpm. destruct (cs_static _ _ _ _ _ _ _ Hsh) as (-> & _). reflexivity.
+  Qed.
+
+  Lemma wf' : wf_ctx s'.
+  Proof.
+    pose proof (cl_wf _ Hcl) as Hwf. pose proof x_refs as (Hr1 & Hr2 & Hr3). pose proof L_ge_2 as HL2.
+    pose proof (cs_news_ok _ _ _ _ _ _ _ Hsh) as Hok. rewrite Forall_forall in Hok.
+    destruct (cs_static _ _ _ _ _ _ _ Hsh) as (_ & _ & _ & _ & Hc).
+    constructor.
+    - intros j y Hy. rewrite len'.
+      destruct (shape_get _ _ _ _ _ _ _ _ _ Hsh Hx Hy) as [[-> ->]|[[Hne Hy0]|(Hj & Hn & Hin)]].
+      + rewrite Hc.
+        destruct (cs_kind _ _ _ _ _ _ _ Hsh) as [Hn Hnp He Hgc Hrk Hkd Hw HJ HC HD HF | Hn Hnp Hpc Hpc' He Hgc Hrk Hkd
+          | Hnp Hpc Hpc' He Hgc Hrk Hkd Hnk | i Hnp Hpc Hpc' He Hgc Hrk Hkd Hnk | r Hnp Hpc Hpc' He Hgc Hrk Hkd Hnk];
+          rewrite He, Hgc, Hnp; simpl; fold L; lia.
+      + destruct (wf_refs _ Hwf j y Hy0) as (H1 & H2 & H3). fold L in H1, H2, H3. lia.
+      + destruct (Hok y Hin) as (_ & _ & _ & _ & _ & Hye & Hyg). rewrite Hye, Hyg.
+        destruct (cs_kind _ _ _ _ _ _ _ Hsh) as [Hn0 Hnp He Hgc Hrk Hkd Hw HJ HC HD HF | Hn0 Hnp Hpc Hpc' He Hgc Hrk Hkd
+          | Hnp Hpc Hpc' He Hgc Hrk Hkd Hnk | i Hnp Hpc Hpc' He Hgc Hrk Hkd Hnk | r Hnp Hpc Hpc' He Hgc Hrk Hkd Hnk].
+        * rewrite Hn0 in Hin. contradiction.
+        * rewrite Hn0 in Hin. contradiction.
+        * rewrite Forall_forall in Hnk. destruct (Hnk y Hin) as [_ Hyc]. rewrite Hyc, Hnp. simpl. fold L. lia.
+        * destruct Hnk as (y0 & Hnews & _ & Hyc). rewrite Hnews in Hin. destruct Hin as [<-|[]]. rewrite Hyc. lia.
+        * destruct Hnk as (y0 & Hnews & _ & Hyc). rewrite Hnews in Hin. destruct Hin as [<-|[]]. rewrite Hyc.
+          unfold background_ctx. lia.
+    - exact par_ok'.
+    - rewrite pars'. destruct (wf_base _ Hwf) as [H0 H1]. split; rewrite nth_error_app1; auto; rewrite plen; lia.
+    - destruct (wf_unfl _ Hwf) as [H0 H1].
+      split; intros Hf; destruct (cs_flags _ _ _ _ _ _ _ Hsh _ Hf) as [Hf'|(r & _ & _ & Hrk & Hk)]; auto;
+        pose proof (wf_own _ Hwf a x Hx Hrk); lia.
+    - intros j y Hy Hrk.
+      destruct (shape_get _ _ _ _ _ _ _ _ _ Hsh Hx Hy) as [[-> ->]|[[Hne Hy0]|(Hj & Hn & Hin)]].
+      + destruct (cs_kind _ _ _ _ _ _ _ Hsh) as [Hn Hnp He Hgc Hrk' Hkd Hw HJ HC HD HF | Hn Hnp Hpc Hpc' He Hgc Hrk' Hkd
+          | Hnp Hpc Hpc' He Hgc Hrk' Hkd Hnk | i Hnp Hpc Hpc' He Hgc Hrk' Hkd Hnk | r Hnp Hpc Hpc' He Hgc Hrk' Hkd Hnk];
+          rewrite He; try (apply (wf_own _ Hwf a x Hx); congruence). fold L. exact HL2.
+      + exact (wf_own _ Hwf j y Hy0 Hrk).
+      + destruct (Hok y Hin) as (_ & _ & _ & Hk & _). congruence.
+  Qed.
+
+  Lemma c1' : forall j y, get_act s' j = Some y -> pc_clean (a_pc y) = true /\ a_gerr y = None.
+  Proof.
+    intros j y Hy. pose proof (cs_news_ok _ _ _ _ _ _ _ Hsh) as Hok. rewrite Forall_forall in Hok.
+    destruct (shape_get _ _ _ _ _ _ _ _ _ Hsh Hx Hy) as [[-> ->]|[[Hne Hy0]|(Hj & Hn & Hin)]].
+    - split; [exact (cs_clean _ _ _ _ _ _ _ Hsh)|].
+      destruct (cs_static _ _ _ _ _ _ _ Hsh) as (_ & _ & _ & -> & _). exact (proj2 (cl_c1 _ Hcl a x Hx)).
+    - exact (cl_c1 _ Hcl j y Hy0).
+    - destruct (Hok y Hin) as (-> & _ & -> & _). split; reflexivity.
+  Qed.
+
+  Lemma not_self_parent : a_parent x <> Some a.
+  Proof.
+    intros Hp. destruct (child_path p c s a x a Hph Hx Hp) as (px & m & Hpx & Hpm).
+    rewrite Hx in Hpx. injection Hpx as <-. apply (f_equal (@length nat)) in Hpm.
+    rewrite app_length in Hpm. simpl in Hpm. lia.
+  Qed.
+
+  Lemma act_result_live j y : get_act s j = Some y -> donepc (a_pc y) = false -> act_result s j = None.
+  Proof. intros Hy Hl. unfold act_result. rewrite Hy. destruct (a_pc y); try reflexivity. discriminate. Qed.
+
+  Lemma q1' : forall j y i, get_act s' j = Some y -> donepc (a_pc y) = false -> a_parent y = Some i ->
+    exists px, get_act s' i = Some px /\ waits (a_pc px) (a_kind y) j (a_kids px).
+  Proof.
+    intros j y i Hy Hl Hp. pose proof (cs_news_ok _ _ _ _ _ _ _ Hsh) as Hok. rewrite Forall_forall in Hok.
+    destruct (cs_static _ _ _ _ _ _ _ Hsh) as (_ & Hkx & Hpx' & _ & _).
+    destruct (shape_get _ _ _ _ _ _ _ _ _ Hsh Hx Hy) as [[-> ->]|[[Hne Hy0]|(Hj & Hn & Hin)]].
+    - rewrite Hpx' in Hp. rewrite Hkx.
+      destruct (cl_q1 _ Hcl a x i Hx Hlive Hp) as (px & Hpx & Hw). exists px. split; [|exact Hw].
+      eapply shape_get_old; eauto. intros ->. exact (not_self_parent Hp).
+    - destruct (cl_q1 _ Hcl j y i Hy0 Hl Hp) as (px & Hpx & Hw).
+      destruct (Nat.eq_dec i a) as [->|Hia]; [|exists px; split; [eapply shape_get_old; eauto|exact Hw]].
+      rewrite Hx in Hpx. injection Hpx as <-. exfalso.
+      pose proof (act_result_live j y Hy0 Hl) as Hnone.
+      destruct (cs_kind _ _ _ _ _ _ _ Hsh) as [Hn Hnp He Hgc Hrk Hkd Hwt HJ HC HD HF | Hn Hnp Hpc Hpc' He Hgc Hrk Hkd
+        | Hnp Hpc Hpc' He Hgc Hrk Hkd Hnk | i0 Hnp Hpc Hpc' He Hgc Hrk Hkd Hnk | r Hnp Hpc Hpc' He Hgc Hrk Hkd Hnk];
+        destruct (a_kind y); simpl in Hw;
+        try contradiction;
+        try (destruct Hw as [Hw _]; congruence);
+        try (destruct Hw as [? Hw]; congruence).
+      + destruct Hw as [Hw Hin]. specialize (HJ Hw). unfold all_done in HJ. rewrite forallb_forall in HJ.
+        specialize (HJ j Hin). rewrite Hnone in HJ. discriminate.
+      + destruct Hw as [i1 Hw]. exact (HC i1 j Hw Hnone).
+      + destruct Hw as [r1 Hw]. exact (HD r1 j Hw Hnone).
+    - destruct (Hok y Hin) as (_ & Hpy & _). rewrite Hpy in Hp. injection Hp as <-.
+      exists x'. split; [eapply shape_get_self; eauto|].
+      assert (Hjn : j - length (acts s) < length news) by (apply nth_error_Some; rewrite Hn; discriminate).
+      destruct (cs_kind _ _ _ _ _ _ _ Hsh) as [Hn0 Hnp He Hgc Hrk Hkd Hwt HJ HC HD HF | Hn0 Hnp Hpc Hpc' He Hgc Hrk Hkd
+        | Hnp Hpc Hpc' He Hgc Hrk Hkd Hnk | i0 Hnp Hpc Hpc' He Hgc Hrk Hkd Hnk | r Hnp Hpc Hpc' He Hgc Hrk Hkd Hnk].
+      + rewrite Hn0 in Hin. contradiction.
+      + rewrite Hn0 in Hin. contradiction.
+      + rewrite Forall_forall in Hnk. destruct (Hnk y Hin) as [Hk _]. rewrite Hk, Hpc', Hkd. simpl.
+        split; [reflexivity|]. apply in_seq. lia.
+      + destruct Hnk as (y0 & Hnews & Hk & _). rewrite Hnews in Hin, Hjn. destruct Hin as [<-|[]].
+        rewrite Hk, Hpc'. simpl in *. exists i0. f_equal. lia.
+      + destruct Hnk as (y0 & Hnews & Hk & _). rewrite Hnews in Hin, Hjn. destruct Hin as [<-|[]].
+        rewrite Hk, Hpc'. simpl in *. exists r. f_equal. lia.
+  Qed.
+
+  Lemma flagged_lt k : flagged s k -> k < L.
+  Proof. intros (r & Hr & _). apply nth_error_Some. rewrite Hr. discriminate. Qed.
+
+  (* scope of an execution context that existed before the step *)
+  Lemma sc_old io o k j y :
+    get_act s io = Some o -> a_regkey o <> None -> k = a_ectx o ->
+    get_act s' j = Some y -> under s' y k -> prefix_of_aid (a_path o) (a_path y) = true.
+  Proof.
+    intros Ho Hrk -> Hy Hu.
+    assert (Hk : a_ectx o < L) by (apply (wf_refs _ (cl_wf _ Hcl) io o Ho)).
+    destruct (shape_get _ _ _ _ _ _ _ _ _ Hsh Hx Hy) as [[-> ->]|[[Hne Hy0]|(Hj & Hn & Hin)]].
+    - destruct (cs_static _ _ _ _ _ _ _ Hsh) as (-> & _).
+      apply (cl_sc _ Hcl io o a x Ho Hrk Hx). apply under_self; assumption.
+    - apply (cl_sc _ Hcl io o j y Ho Hrk Hy0). eapply under_old; eauto.
+    - destruct (under_new y _ Hin Hk Hu) as [Hux|H1].
+      + destruct (news_child y Hin) as [m ->]. apply prefix_of_aid_app.
+        exact (cl_sc _ Hcl io o a x Ho Hrk Hx Hux).
+      + pose proof (wf_own _ (cl_wf _ Hcl) io o Ho Hrk). lia.
+  Qed.
+
+  Lemma sc' : forall io o j y, get_act s' io = Some o -> a_regkey o <> None -> get_act s' j = Some y ->
+    under s' y (a_ectx o) -> prefix_of_aid (a_path o) (a_path y) = true.
+  Proof.
+    intros io o j y Ho Hrk Hy Hu. pose proof (cs_news_ok _ _ _ _ _ _ _ Hsh) as Hok. rewrite Forall_forall in Hok.
+    destruct (shape_get _ _ _ _ _ _ _ _ _ Hsh Hx Ho) as [[-> ->]|[[Hne Ho0]|(Hj & Hn & Hin)]].
+    - destruct (cs_static _ _ _ _ _ _ _ Hsh) as (Hpath & _).
+      destruct (cs_kind _ _ _ _ _ _ _ Hsh) as [Hn Hnp He Hgc Hrk' Hkd Hw HJ HC HD HF | Hn Hnp Hpc Hpc' He Hgc Hrk' Hkd
+        | Hnp Hpc Hpc' He Hgc Hrk' Hkd Hnk | i Hnp Hpc Hpc' He Hgc Hrk' Hkd Hnk | r Hnp Hpc Hpc' He Hgc Hrk' Hkd Hnk];
+        try (rewrite Hpath; apply (sc_old a x (a_ectx x') j y Hx); [congruence|congruence|exact Hy|exact Hu]).
+      (* x' has just become an owner: its context is fresh *)
+      rewrite He in Hu. fold L in Hu.
+      destruct (shape_get _ _ _ _ _ _ _ _ _ Hsh Hx Hy) as [[-> ->]|[[Hne Hy0]|(Hj & Hn' & Hin)]].
+      + apply prefix_of_aid_refl.
+      + exfalso. destruct (wf_refs _ (cl_wf _ Hcl) j y Hy0) as (H1 & H2 & H3). fold L in H1, H2, H3.
+        destruct Hu as [H|[H|H]]; apply (reach_le _ _ _ par_ok') in H; lia.
+      + rewrite Hn in Hin. contradiction.
+    - apply (sc_old io o (a_ectx o) j y Ho0 Hrk eq_refl Hy Hu).
+    - destruct (Hok o Hin) as (_ & _ & _ & Hk & _). congruence.
+  Qed.
+
+  Lemma done_fin q : donepc q = true -> fin q = true.
+  Proof. destruct q; simpl; auto. Qed.
+
+  Lemma c2' : forall k j y, flagged s' k -> get_act s' j = Some y -> under s' y k -> fin (a_pc y) = true.
+  Proof.
+    intros k j y Hf Hy Hu.
+    destruct (cs_flags _ _ _ _ _ _ _ Hsh _ Hf) as [Hf0|(r & Hpc & Hpc' & Hrk & ->)].
+    - pose proof (flagged_lt k Hf0) as Hk.
+      destruct (shape_get _ _ _ _ _ _ _ _ _ Hsh Hx Hy) as [[-> ->]|[[Hne Hy0]|(Hj & Hn & Hin)]].
+      + pose proof (cl_c2 _ Hcl k a x Hf0 Hx (under_self k Hk Hu)) as Hfx.
+        destruct (cs_kind _ _ _ _ _ _ _ Hsh) as [Hn Hnp He Hgc Hrk' Hkd Hw HJ HC HD HF | Hn Hnp Hpc Hpc' He Hgc Hrk' Hkd
+          | Hnp Hpc Hpc' He Hgc Hrk' Hkd Hnk | i Hnp Hpc Hpc' He Hgc Hrk' Hkd Hnk | r Hnp Hpc Hpc' He Hgc Hrk' Hkd Hnk];
+          try (rewrite Hpc in Hfx; discriminate). exact (HF Hfx).
+      + apply (cl_c2 _ Hcl k j y Hf0 Hy0). eapply under_old; eauto.
+      + exfalso. destruct (under_new y k Hin Hk Hu) as [Hux| ->].
+        * pose proof (cl_c2 _ Hcl k a x Hf0 Hx Hux) as Hfx.
+          destruct (cs_kind _ _ _ _ _ _ _ Hsh) as [Hn0 Hnp He Hgc Hrk' Hkd Hw HJ HC HD HF | Hn0 Hnp Hpc Hpc' He Hgc Hrk' Hkd
+            | Hnp Hpc Hpc' He Hgc Hrk' Hkd Hnk | i Hnp Hpc Hpc' He Hgc Hrk' Hkd Hnk | r Hnp Hpc Hpc' He Hgc Hrk' Hkd Hnk];
+            try (rewrite Hpc in Hfx; discriminate); rewrite Hn0 in Hin; contradiction.
+        * exact (proj2 (wf_unfl _ (cl_wf _ Hcl)) Hf0).
+    - (* the owner x has just completed: everything under its context is done *)
+      assert (Hnews : news = []).
+      { destruct (cs_kind _ _ _ _ _ _ _ Hsh) as [Hn0 Hnp He Hgc Hrk' Hkd Hw HJ HC HD HF | Hn0 Hnp Hpc0 Hpc0' He Hgc Hrk' Hkd
+          | Hnp Hpc0 Hpc0' He Hgc Hrk' Hkd Hnk | i Hnp Hpc0 Hpc0' He Hgc Hrk' Hkd Hnk | r0 Hnp Hpc0 Hpc0' He Hgc Hrk' Hkd Hnk];
+          try assumption; congruence. }
+      destruct (shape_get _ _ _ _ _ _ _ _ _ Hsh Hx Hy) as [[-> ->]|[[Hne Hy0]|(Hj & Hn & Hin)]].
+      + rewrite Hpc'. reflexivity.
+      + destruct (donepc (a_pc y)) eqn:Hd; [apply done_fin; exact Hd|]. exfalso.
+        assert (Hpre : prefix_of_aid (a_path x) (a_path y) = true).
+        { apply (cl_sc _ Hcl a x j y Hx Hrk Hy0). eapply under_old; eauto. }
+        pose proof (live_ancestors p c s Hph Hcl _ j y a x (le_n _) Hy0 Hd Hx Hpre (fun e => Hne (eq_sym e))) as Hw.
+        rewrite Hpc in Hw. discriminate.
+      + rewrite Hnews in Hin. contradiction.
+  Qed.
+
+  Theorem clean' : clean s'.
+  Proof. constructor; [exact wf'|exact c1'|exact q1'|exact sc'|exact c2']. Qed.
+End Preserve.
+
+(* ------------------------------------------------------------------ *)
+(* runs                                                                *)
+
+Lemma step_trace_app p c s a s' : step p c s a = Some s' -> exists evs, trace s' = trace s ++ evs.
+Proof.
+  intros H. destruct (get_act s a) as [x|] eqn:Hx; [|unfold step in H; rewrite Hx in H; discriminate].
+  step_cases H Hx;
+    try (eexists; autorewrite with sigdb; simpl; rewrite <- ?app_assoc; first [reflexivity | symmetry; apply app_nil_r]).
+  - apply fork_deps_spec in Heqp0. simpl in Heqp0.
+    destruct Heqp0 as [news (_ & _ & Ht & _)]. exists []. rewrite trace_set_act, Ht, release_trace, app_nil_r. reflexivity.
+Qed.
+
+Lemma step_not_done p c s a s' x : get_act s a = Some x -> step p c s a = Some s' -> donepc (a_pc x) = false.
+Proof. intros Hx H. unfold step in H. rewrite Hx in H. destruct (a_pc x); try reflexivity. discriminate. Qed.
+
+Definition fail_seen (p : prog) (c : cfg) (tr : list event) : bool :=
+  existsb (fun e => match e with EvProbeEnd b i => failing_cmd p c b i | _ => false end) tr.
+
+Definition no204 (tr : list event) : bool :=
+  forallb (fun e => match e with EvEnd _ (RErr (ECode 204)) => false | _ => true end) tr.
+
+Definition other_fail (p : prog) (c : cfg) (a : aid) (tr : list event) : bool :=
+  existsb (fun e => match e with
+                    | EvProbeEnd b i => failing_cmd p c b i && negb (aid_eqb a b)
+                    | _ => false end) tr.
+
+Lemma other_fail_foreign p c a tr : other_fail p c a tr = true -> foreign_failure p c a tr = true.
+Proof. unfold foreign_failure, other_fail. intros ->. apply orb_true_r. Qed.
+
+Lemma guards_foreign p c a tr : no_guard_errors p c = false -> foreign_failure p c a tr = true.
+Proof. unfold foreign_failure. intros ->. reflexivity. Qed.
+
+Lemma no_guard_fine p c t : no_guard_errors p c = true -> guards_fine c (get_task p t).
+Proof.
+  unfold no_guard_errors, get_task. intros H.
+  assert (Hd : guards_fine c dummy_task) by (unfold guards_fine; simpl; repeat split; discriminate).
+  destruct (nth_in_or_default t p dummy_task) as [Hin|Hdef]; [|rewrite Hdef; exact Hd].
+  rewrite forallb_forall in H. specialize (H _ Hin). unfold guards_fine.
+  destruct (g_required _), (g_enum _); simpl in H; try discriminate.
+  destruct (g_prompt _ && negb (cf_yes c)); simpl in H; try discriminate.
+  destruct (g_precond _) as [[|]|]; simpl in H; try discriminate; repeat split; congruence.
+Qed.
+
+Lemma start_root_trace p c s k s' : start_root p c s k = Some s' -> trace s' = trace s.
+Proof.
+  unfold start_root. destruct (nth_error (cf_roots c) k); [|discriminate].
+  destruct (negb (precheck_ok p c) || root_started s k); [discriminate|].
+  match goal with |- (if ?b then _ else _) = _ -> _ => destruct b end; [|discriminate].
+  intros H. injection H as <-. reflexivity.
+Qed.
+
+Lemma clean_init p : clean (init_state p).
+Proof.
+  assert (Hn : forall j y, get_act (init_state p) j = Some y -> False).
+  { intros j y H. unfold get_act in H. simpl in H. destruct j; discriminate. }
+  constructor; try (intros; exfalso; eapply Hn; eassumption).
+  constructor; try (intros; exfalso; eapply Hn; eassumption).
+  - intros k q H. unfold parents in H. simpl in H. destruct k as [|[|[|k]]]; discriminate.
+  - split; reflexivity.
+  - split; intros (r & Hr & Hc); simpl in Hr; injection Hr as <-; discriminate.
+Qed.
+
+Lemma start_root_clean p c s k s' : clean s -> start_root p c s k = Some s' -> clean s'.
+Proof.
+  intros Hcl H. unfold start_root in H.
+  destruct (nth_error (cf_roots c) k) as [cl|]; [|discriminate].
+  destruct (negb (precheck_ok p c) || root_started s k); [discriminate|].
+  match type of H with (if ?b then _ else _) = _ => destruct b end; [|discriminate].
+  injection H as <-. unfold add_act. simpl.
+  set (n := new_act [k] (c_task cl) (eval_var 0 (c_var cl)) KRoot None root_ctx).
+  set (s' := {| acts := acts s ++ [n]; used := used s; dedup := dedup s; calls := calls s; ctxs := ctxs s;
+                trace := trace s; rootres := rootres s; rungerr := rungerr s |}).
+  assert (Hget : forall j y, get_act s' j = Some y -> get_act s j = Some y \/ (j = length (acts s) /\ y = n)).
+  { intros j y Hy. unfold get_act in *. simpl in Hy.
+    destruct (Nat.lt_ge_cases j (length (acts s))) as [Hlt|Hge].
+    - rewrite nth_error_app1 in Hy by exact Hlt. left. exact Hy.
+    - rewrite nth_error_app2 in Hy by exact Hge. destruct (j - length (acts s)) as [|m] eqn:E; simpl in Hy.
+      + injection Hy as <-. right. split; [lia|reflexivity].
+      + destruct m; discriminate. }
+  assert (Hold : forall j y, get_act s j = Some y -> get_act s' j = Some y).
+  { intros j y Hy. unfold get_act in *. simpl. rewrite nth_error_app1; [exact Hy|].
+    apply nth_error_Some. rewrite Hy. discriminate. }
+  assert (Hpar : parents s' = parents s) by reflexivity.
+  assert (Hfl : forall j, flagged s' j <-> flagged s j) by (intros j; reflexivity).
+  assert (Hund : forall y j, under s' y j <-> under s y j) by (intros y j; reflexivity).
+  pose proof (cl_wf _ Hcl) as Hwf.
+  assert (HL : 2 <= length (ctxs s)).
+  { destruct (wf_base _ Hwf) as [_ H1]. unfold parents in H1. rewrite nth_error_map in H1.
+    assert (1 < length (ctxs s)); [|lia]. apply nth_error_Some. destruct (nth_error (ctxs s) 1); discriminate. }
+  assert (Hun : forall j, under s n j -> j = 0).
+  { intros j Hj. unfold under, n in Hj. simpl in Hj.
+    destruct Hj as [Hj|[Hj|Hj]]; exact (reach_base _ _ _ (proj1 (wf_base _ Hwf)) Hj). }
+  constructor.
+  - constructor.
+    + intros j y Hy. simpl. destruct (Hget j y Hy) as [Hy0|[-> ->]]; [exact (wf_refs _ Hwf j y Hy0)|].
+      unfold n, root_ctx. simpl. lia.
+    + exact (wf_par _ Hwf).
+    + exact (wf_base _ Hwf).
+    + exact (wf_unfl _ Hwf).
+    + intros j y Hy Hrk. destruct (Hget j y Hy) as [Hy0|[-> ->]]; [exact (wf_own _ Hwf j y Hy0 Hrk)|].
+      exfalso. apply Hrk. reflexivity.
+  - intros j y Hy. destruct (Hget j y Hy) as [Hy0|[-> ->]]; [exact (cl_c1 _ Hcl j y Hy0)|]. split; reflexivity.
+  - intros j y i Hy Hl Hp. destruct (Hget j y Hy) as [Hy0|[-> ->]]; [|discriminate].
+    destruct (cl_q1 _ Hcl j y i Hy0 Hl Hp) as (px & Hpx & Hw). exists px. split; [apply Hold; exact Hpx|exact Hw].
+  - intros io o j y Ho Hrk Hy Hu. destruct (Hget io o Ho) as [Ho0|[-> ->]]; [|exfalso; apply Hrk; reflexivity].
+    destruct (Hget j y Hy) as [Hy0|[-> ->]]; [exact (cl_sc _ Hcl io o j y Ho0 Hrk Hy0 Hu)|].
+    exfalso. apply Hun in Hu. pose proof (wf_own _ Hwf io o Ho0 Hrk). lia.
+  - intros k0 j y Hf Hy Hu. destruct (Hget j y Hy) as [Hy0|[-> ->]]; [exact (cl_c2 _ Hcl k0 j y Hf Hy0 Hu)|].
+    exfalso. apply Hun in Hu. subst k0. exact (proj1 (wf_unfl _ Hwf) Hf).
+Qed.
+
+
+Section Causal.
+  Variables (p : prog) (c : cfg).
+  (* a further, stable, reason for which the error-free regime may have been left *)
+  Variable Zb : list event -> bool.
+  Hypothesis Zb_mono : forall tr evs, Zb tr = true -> Zb (tr ++ evs) = true.
+
+  (* the run has left the error-free regime for a reason the monitor accepts *)
+  Definition excused_tr (tr : list event) : Prop := fail_seen p c tr = true \/ Zb tr = true.
+
+  Lemma excused_app tr evs : excused_tr tr -> excused_tr (tr ++ evs).
+  Proof.
+    unfold excused_tr, fail_seen. rewrite existsb_app.
+    intros [H|H]; [left; rewrite H; reflexivity|right; apply Zb_mono; exact H].
+  Qed.
+
+  (* the global invariant: error-free, or excused *)
+  Definition causal (s : state) : Prop := excused_tr (trace s) \/ clean s.
+
+  (* the call counter trips only for the reason Zb *)
+  Definition trip_ok (s : state) : Prop :=
+    forall a x, get_act s a = Some x -> callcount_trips c s x ->
+                Zb (trace s ++ [EvEnd (a_path x) (RErr (ECode 204))]) = true.
+
+  Lemma step_causal s a s' :
+    no_guard_errors p c = true -> inv_phase p c s -> trip_ok s -> causal s -> step p c s a = Some s' -> causal s'.
+  Proof.
+    intros Hng Hph Htrip [Hex|Hcl] H.
+    - left. destruct (step_trace_app _ _ _ _ _ H) as [evs ->]. apply excused_app. exact Hex.
+    - destruct (get_act s a) as [x|] eqn:Hx; [|unfold step in H; rewrite Hx in H; discriminate].
+      destruct (cl_c1 _ Hcl a x Hx) as [Hc1 Hg]. destruct (clean_results _ Hcl) as [Hres Hexe].
+      destruct (clean_step p c s a s' x Hx H Hc1 Hg Hres Hexe (no_guard_fine p c _ Hng)
+                  (clean_uncancelled s a x Hcl Hx)) as [(e & Htr & He)|(x' & news & np & Hsh)].
+      + left. rewrite Htr. destruct He as [[-> Ht]|(i & -> & Hf)].
+        * right. exact (Htrip a x Hx Ht).
+        * left. unfold fail_seen. rewrite existsb_app. simpl.
+          change (failing_cmd p c (a_path x) i) with (failing_tk (get_task p (task_of p c (a_path x))) i).
+          rewrite (task_of_get p c s a x (ip_ids _ _ _ Hph) Hx), Hf. simpl. apply orb_true_r.
+      + right. eapply clean'; eauto.
+        * eapply step_inv_phase; eauto.
+        * eapply step_not_done; eauto.
+  Qed.
+
+  (* the excuse the monitor accepts: unless Zb, some other activation has a failing command *)
+  Definition ex_cause : excuse := fun a tr => Zb tr = false -> other_fail p c a tr = true.
+
+  Lemma ex_cause_mono : excuse_mono ex_cause.
+  Proof.
+    intros a tr evs H Hz. unfold other_fail. rewrite existsb_app.
+    assert (Hz' : Zb tr = false).
+    { destruct (Zb tr) eqn:E; [|reflexivity]. rewrite (Zb_mono _ evs E) in Hz. discriminate. }
+    unfold ex_cause, other_fail in H. rewrite (H Hz'). reflexivity.
+  Qed.
+
+  Lemma causal_excused s : inv_phase p c s -> causal s -> probe_excused ex_cause p s.
+  Proof.
+    intros Hph Hca a x i Hx Hpc Hcanc Hfail Hvf Hno.
+    destruct Hca as [[Hfs|Hn]|Hcl].
+    - unfold fail_seen in Hfs. apply existsb_exists in Hfs. destruct Hfs as [e [He Hfe]].
+      unfold other_fail. apply existsb_exists. exists e. split; [exact He|].
+      destruct e; try discriminate. rewrite Hfe. simpl.
+      destruct (aid_eqb (a_path x) a0) eqn:E; [|reflexivity]. exfalso.
+      apply aid_eqb_eq in E. subst a0.
+      pose proof (find_vfold p c (a_path x) (trace s)) as Hfind.
+      rewrite (task_of_get p c s a x (ip_ids _ _ _ Hph) Hx), Hvf in Hfind.
+      destruct (find (own_fail_event p c (a_path x)) (trace s)) as [e0|] eqn:Ef.
+      + destruct e0; try contradiction. destruct Hfind as [Hf _]. discriminate.
+      + pose proof (find_none _ _ Ef _ He) as Hne. simpl in Hne. rewrite aid_eqb_refl, Hfe in Hne. discriminate.
+    - rewrite Hn in Hno. discriminate.
+    - rewrite (clean_uncancelled s a x Hcl Hx) in Hcanc; [discriminate|]. rewrite Hpc. reflexivity.
+  Qed.
+
+  Lemma choice_causal s ch :
+    no_guard_errors p c = true -> trip_ok s ->
+    inv_phase p c s /\ causal s -> inv_phase p c (do_choice p c s ch) /\ causal (do_choice p c s ch).
+  Proof.
+    intros Hng Htrip [Hph Hca]. destruct ch as [a|k]; simpl.
+    - destruct (step p c s a) eqn:E; [|split; assumption].
+      split; [eapply step_inv_phase; eauto|eapply step_causal; eauto].
+    - destruct (start_root p c s k) eqn:E; [|split; assumption].
+      split; [eapply start_root_inv_phase; eauto|].
+      destruct Hca as [Hex|Hcl]; [left; rewrite (start_root_trace _ _ _ _ _ E); exact Hex|right; eapply start_root_clean; eauto].
+  Qed.
+
+  Lemma causal_all_states sched : no_guard_errors p c = true -> forall s,
+    inv_phase p c s /\ causal s -> all_states trip_ok p c s sched ->
+    all_states (probe_excused ex_cause p) p c s sched.
+  Proof.
+    intros Hng. induction sched as [|ch sched IH]; intros s Hs [Ht Hrest]; simpl;
+      (split; [apply causal_excused; apply Hs|]); [exact I|].
+    apply IH; [apply choice_causal; assumption|exact Hrest].
+  Qed.
+
+  Lemma run_inv_defer_cause sched :
+    no_guard_errors p c = true -> all_states trip_ok p c (init_state p) sched ->
+    inv_defer ex_cause p c (run p c sched).
+  Proof.
+    intros Hng Hall. unfold run. apply fold_inv_defer; [apply ex_cause_mono|apply inv_defer_init|].
+    apply causal_all_states; [exact Hng| |exact Hall].
+    split; [apply inv_phase_init|right; apply clean_init].
+  Qed.
+
+  Theorem exit_codes_causal sched :
+    all_states trip_ok p c (init_state p) sched -> Zb (trace (run p c sched)) = false ->
+    mon_C14_exit p c (trace (run p c sched)) = true.
+  Proof.
+    intros Hall Hz. apply forallb_forall. intros a Ha.
+    destruct (no_guard_errors p c) eqn:Hng.
+    - pose proof (run_inv_defer_cause sched Hng Hall) as Hinv.
+      destruct (started_act _ _ _ _ _ Hinv Ha) as (x & Hx & Hp & Ht & Hl).
+      rewrite exit_codes_ok_codes. eapply codes_of_local; [rewrite Ht; exact Hl|].
+      intros HX. apply other_fail_foreign. exact (HX Hz).
+    - apply exit_codes_ok_if_foreign; [exact Ha|]. apply guards_foreign. exact Hng.
+  Qed.
+End Causal.
+
+(* the EXIT_CODE conjunct of mon_C14, for every program, configuration and schedule in which the
+   call counter (MaximumTaskCall, error 204) did not trip *)
+Theorem exit_codes_all p c sched :
+  no204 (trace (run p c sched)) = true -> mon_C14_exit p c (trace (run p c sched)) = true.
+Proof.
+  intros Hno. apply (exit_codes_causal p c (fun tr => negb (no204 tr))).
+  - intros tr evs H. unfold no204 in *. rewrite forallb_app. apply negb_true_iff in H. rewrite H. reflexivity.
+  - apply all_states_always. intros s a x _ _. unfold no204. rewrite forallb_app. simpl. rewrite andb_false_r. reflexivity.
+  - rewrite Hno. reflexivity.
+Qed.
+
+Theorem defer_safety_full p c sched :
+  no204 (trace (run p c sched)) = true -> mon_C14 p c false (trace (run p c sched)) = true.
+Proof. intros Hno. rewrite mon_C14_split, defer_safety_noexit, (exit_codes_all p c sched Hno). reflexivity. Qed.
+
+Theorem defer_complete_full p c sched r :
+  no204 (trace (run p c sched)) = true -> run_result p c (run p c sched) = Some r ->
+  mon_C14 p c true (trace (run p c sched)) = true.
+Proof.
+  intros Hno Hr. rewrite mon_C14_split, (defer_complete_noexit p c sched r Hr), (exit_codes_all p c sched Hno).
+  reflexivity.
+Qed.
+
+(* the same when the call counter never trips, as a property of the states *)
+Definition callcount_safe (c : cfg) (s : state) : Prop := forall a x, get_act s a = Some x -> ~ callcount_trips c s x.
+
+Theorem exit_codes_safe p c sched :
+  all_states (callcount_safe c) p c (init_state p) sched -> mon_C14_exit p c (trace (run p c sched)) = true.
+Proof.
+  intros Hs. apply (exit_codes_causal p c (fun _ => false)); [intros; assumption| |reflexivity].
+  eapply all_states_impl; [|exact Hs]. intros s H a x Hx Ht. exfalso. exact (H a x Hx Ht).
+Qed.
+
+(* ------------------------------------------------------------------ *)
+(* the call counter: a program whose expanded call tree has fewer task references than
+   MaximumTaskCall never trips it.  Call paths are unique and resolve in the program, so there
+   are at most as many activations as nodes in the expanded tree. *)
+
+Definition tails (m : nat) (Ps : list (list nat)) : list (list nat) :=
+  flat_map (fun pa => match pa with m' :: r => if Nat.eqb m' m then [r] else [] | [] => [] end) Ps.
+
+Definition nils (Ps : list (list nat)) : nat := length (filter (fun pa => match pa with [] => true | _ => false end) Ps).
+
+Definition sumf (F : nat -> nat) (l : list nat) : nat := fold_right (fun m acc => F m + acc) 0 l.
+
+Lemma sumf_app F l1 l2 : sumf F (l1 ++ l2) = sumf F l1 + sumf F l2.
+Proof. induction l1 as [|x l1 IH]; simpl; [reflexivity|]. rewrite IH. lia. Qed.
+
+Lemma sumf_same F G l : (forall m, In m l -> F m = G m) -> sumf F l = sumf G l.
+Proof.
+  induction l as [|x l IH]; intros H; simpl; [reflexivity|].
+  rewrite (H x (or_introl eq_refl)), IH; [reflexivity|]. intros m Hm. apply H. right. exact Hm.
+Qed.
+
+Lemma sumf_bump F m start n :
+  start <= m < start + n ->
+  sumf (fun m' => (if Nat.eqb m m' then 1 else 0) + F m') (seq start n) = S (sumf F (seq start n)).
+Proof.
+  revert start; induction n as [|n IH]; intros start H; [lia|]. simpl.
+  destruct (Nat.eqb_spec m start) as [->|Hne].
+  - rewrite (sumf_same (fun m' => (if Nat.eqb start m' then 1 else 0) + F m') F); [lia|].
+    intros m' Hm'. apply in_seq in Hm'. rewrite (proj2 (Nat.eqb_neq start m')) by lia. reflexivity.
+  - rewrite IH by lia. lia.
+Qed.
+
+Lemma len_partition N Ps :
+  (forall pa, In pa Ps -> match pa with [] => True | m :: _ => m < N end) ->
+  length Ps = nils Ps + sumf (fun m => length (tails m Ps)) (seq 0 N).
+Proof.
+  induction Ps as [|pa Ps IH]; intros H.
+  - unfold nils, tails. simpl. clear. induction (seq 0 N); simpl; auto.
+  - assert (H' : forall pa, In pa Ps -> match pa with [] => True | m :: _ => m < N end)
+      by (intros q Hq; apply H; right; exact Hq).
+    specialize (IH H'). pose proof (H pa (or_introl eq_refl)) as Hpa.
+    destruct pa as [|m r].
+    + unfold nils in *. simpl. unfold tails at 1. simpl. fold (tails). 
+      rewrite IH. unfold tails. simpl. lia.
+    + unfold nils in *. simpl.
+      rewrite (sumf_same (fun m0 => length (tails m0 ((m :: r) :: Ps)))
+                         (fun m' => (if Nat.eqb m m' then 1 else 0) + length (tails m' Ps))).
+      * rewrite sumf_bump by lia. rewrite IH. lia.
+      * intros m' _. unfold tails. simpl. destruct (Nat.eqb m m'); simpl; reflexivity.
+Qed.
+
+Lemma nils_nodup Ps : NoDup Ps -> nils Ps <= 1.
+Proof.
+  unfold nils. induction 1 as [|pa Ps Hni Hnd IH]; simpl; [lia|].
+  destruct pa; simpl; [|exact IH].
+  assert (E : filter (fun pa => match pa with [] => true | _ :: _ => false end) Ps = []).
+  { clear -Hni. induction Ps as [|q Ps IH]; simpl; [reflexivity|].
+    destruct q; [exfalso; apply Hni; left; reflexivity|]. apply IH. intros H. apply Hni. right. exact H. }
+  rewrite E. simpl. lia.
+Qed.
+
+Lemma tails_in m Ps r : In r (tails m Ps) <-> In (m :: r) Ps.
+Proof.
+  unfold tails. rewrite in_flat_map. split.
+  - intros [pa [Hpa Hr]]. destruct pa as [|m' r']; [contradiction|].
+    destruct (Nat.eqb_spec m' m) as [->|]; [|contradiction]. destruct Hr as [<-|[]]. exact Hpa.
+  - intros H. exists (m :: r). split; [exact H|]. rewrite Nat.eqb_refl. left. reflexivity.
+Qed.
+
+Lemma tails_nodup m Ps : NoDup Ps -> NoDup (tails m Ps).
+Proof.
+  induction 1 as [|pa Ps Hni Hnd IH]; [constructor|].
+  unfold tails. simpl. fold (tails m Ps). destruct pa as [|m' r]; [exact IH|].
+  destruct (Nat.eqb_spec m' m) as [->|]; [|exact IH]. simpl. constructor; [|exact IH].
+  intros Hin. apply Hni. apply tails_in. exact Hin.
+Qed.
+
+(* sums written as the folds of tree_size *)
+Lemma fold_add_acc {A} (g : A -> nat) l k :
+  fold_left (fun acc a => acc + g a) l k = k + fold_left (fun acc a => acc + g a) l 0.
+Proof.
+  revert k; induction l as [|a l IH]; intros k; simpl; [lia|]. rewrite IH, (IH (g a)). lia.
+Qed.
+
+Lemma sum_le_fold {A} (g : A -> nat) (F : nat -> nat) (l : list A) start :
+  (forall i a, nth_error l i = Some a -> F (start + i) <= g a) ->
+  sumf F (seq start (length l)) <= fold_left (fun acc a => acc + g a) l 0.
+Proof.
+  revert start; induction l as [|a l IH]; intros start H; simpl; [lia|].
+  rewrite fold_add_acc. pose proof (H 0 a eq_refl) as H0. rewrite Nat.add_0_r in H0.
+  specialize (IH (S start)). assert (Hl : sumf F (seq (S start) (length l)) <= fold_left (fun acc a0 => acc + g a0) l 0).
+  { apply IH. intros i b Hb. replace (S start + i) with (start + S i) by lia. apply H. exact Hb. }
+  lia.
+Qed.
+
+Lemma elem_le_fold {A} (g : A -> nat) (l : list A) i a :
+  nth_error l i = Some a -> g a <= fold_left (fun acc a => acc + g a) l 0.
+Proof.
+  revert i; induction l as [|b l IH]; intros [|i] H; simpl in *; try discriminate.
+  - injection H as ->. rewrite fold_add_acc. lia.
+  - rewrite fold_add_acc. specialize (IH i H). lia.
+Qed.
+
+Definition cmd_size (f : nat) (p : prog) (huge : nat) (cm : cmd) : nat :=
+  match cm with CallC cl | DeferCall cl => tree_size f p huge (c_task cl) | _ => 0 end.
+
+Lemma fold_cmd_size f p huge l : forall k,
+  fold_left (fun acc cm => match cm with
+                           | CallC cl | DeferCall cl => acc + tree_size f p huge (c_task cl)
+                           | _ => acc end) l k =
+  fold_left (fun acc cm => acc + cmd_size f p huge cm) l k.
+Proof.
+  induction l as [|cm l IH]; intros k; simpl; [reflexivity|].
+  destruct cm; simpl; rewrite ?Nat.add_0_r; apply IH.
+Qed.
+
+Lemma tree_size_S f p huge t :
+  tree_size (S f) p huge t =
+  S (fold_left (fun acc d => acc + tree_size f p huge (c_task d)) (t_deps (get_task p t)) 0 +
+     fold_left (fun acc cm => acc + cmd_size f p huge cm) (t_cmds (get_task p t)) 0).
+Proof. cbn [tree_size]. rewrite fold_cmd_size. reflexivity. Qed.
+
+(* at most tree_size paths resolve below a task *)
+Lemma paths_below p huge : forall f t v lk Ps,
+  NoDup Ps -> (forall pa, In pa Ps -> resolve_from p t v lk pa <> None) ->
+  tree_size f p huge t < huge -> length Ps <= tree_size f p huge t.
+Proof.
+  induction f as [|f IH]; intros t v lk Ps Hnd Hres Hlt; [simpl in Hlt; lia|].
+  rewrite tree_size_S in *.
+  set (tk := get_task p t) in *. set (nd := length (t_deps tk)).
+  set (D := fold_left (fun acc d => acc + tree_size f p huge (c_task d)) (t_deps tk) 0) in *.
+  set (C := fold_left (fun acc cm => acc + cmd_size f p huge cm) (t_cmds tk) 0) in *.
+  assert (Hhead : forall pa, In pa Ps -> match pa with [] => True | m :: _ => m < nd + length (t_cmds tk) end).
+  { intros pa Hpa. specialize (Hres pa Hpa). destruct pa as [|m r]; [exact I|]. simpl in Hres. fold tk nd in Hres.
+    destruct (Nat.ltb m nd) eqn:E; [apply Nat.ltb_lt in E; lia|]. apply Nat.ltb_ge in E.
+    destruct (nth_error (t_cmds tk) (m - nd)) eqn:En; [|congruence].
+    assert (m - nd < length (t_cmds tk)) by (apply nth_error_Some; rewrite En; discriminate). lia. }
+  rewrite (len_partition _ Ps Hhead). pose proof (nils_nodup Ps Hnd) as Hn.
+  rewrite seq_app, sumf_app. simpl.
+  assert (HD : sumf (fun m => length (tails m Ps)) (seq 0 nd) <= D).
+  { unfold D, nd. apply sum_le_fold. intros i d Hd. simpl.
+    assert (Hdl : tree_size f p huge (c_task d) < huge).
+    { pose proof (elem_le_fold (fun d => tree_size f p huge (c_task d)) _ _ _ Hd). fold D in H. lia. }
+    apply (IH (c_task d) (eval_var v (c_var d)) LDep); [apply tails_nodup; exact Hnd| |exact Hdl].
+    intros r Hr. apply tails_in in Hr. specialize (Hres _ Hr). simpl in Hres. fold tk nd in Hres.
+    assert (Hi : Nat.ltb i nd = true) by (apply Nat.ltb_lt; apply nth_error_Some; unfold nd; rewrite Hd; discriminate).
+    rewrite Hi, Hd in Hres. exact Hres. }
+  assert (HC : sumf (fun m => length (tails m Ps)) (seq nd (length (t_cmds tk))) <= C).
+  { unfold C. apply sum_le_fold. intros i cm Hcm.
+    assert (Hcl : cmd_size f p huge cm < huge).
+    { pose proof (elem_le_fold (cmd_size f p huge) _ _ _ Hcm). fold C in H. lia. }
+    assert (Hi : Nat.ltb (nd + i) nd = false) by (apply Nat.ltb_ge; lia).
+    assert (Hsub : nd + i - nd = i) by lia.
+    destruct cm as [ex ign|cl|ex|cl]; simpl in *.
+    - destruct (tails (nd + i) Ps) as [|r l] eqn:Et; [simpl; lia|]. exfalso.
+      assert (Hr : In r (tails (nd + i) Ps)) by (rewrite Et; left; reflexivity).
+      apply tails_in in Hr. specialize (Hres _ Hr). simpl in Hres. fold tk nd in Hres.
+      rewrite Hi, Hsub, Hcm in Hres. congruence.
+    - apply (IH (c_task cl) (eval_var v (c_var cl)) LCall); [apply tails_nodup; exact Hnd| |exact Hcl].
+      intros r Hr. apply tails_in in Hr. specialize (Hres _ Hr). simpl in Hres. fold tk nd in Hres.
+      rewrite Hi, Hsub, Hcm in Hres. exact Hres.
+    - destruct (tails (nd + i) Ps) as [|r l] eqn:Et; [simpl; lia|]. exfalso.
+      assert (Hr : In r (tails (nd + i) Ps)) by (rewrite Et; left; reflexivity).
+      apply tails_in in Hr. specialize (Hres _ Hr). simpl in Hres. fold tk nd in Hres.
+      rewrite Hi, Hsub, Hcm in Hres. congruence.
+    - apply (IH (c_task cl) (eval_var v (c_var cl)) LDefer); [apply tails_nodup; exact Hnd| |exact Hcl].
+      intros r Hr. apply tails_in in Hr. specialize (Hres _ Hr). simpl in Hres. fold tk nd in Hres.
+      rewrite Hi, Hsub, Hcm in Hres. exact Hres. }
+  lia.
+Qed.
+
+Definition call_total (p : prog) (c : cfg) : nat :=
+  fold_left (fun acc r => acc + tree_size (S (length p)) p (cf_maxcall c) (c_task r)) (cf_roots c) 0.
+
+Lemma callcount_possible_false p c : callcount_possible p c = false -> call_total p c < cf_maxcall c.
+Proof. unfold callcount_possible. fold (call_total p c). intros H. apply Nat.leb_gt in H. exact H. Qed.
+
+Lemma paths_bound p c (Ps : list (list nat)) :
+  NoDup Ps -> (forall pa, In pa Ps -> resolve p c pa <> None) ->
+  call_total p c < cf_maxcall c -> length Ps <= call_total p c.
+Proof.
+  intros Hnd Hres Hlt.
+  assert (Hhead : forall pa, In pa Ps -> match pa with [] => True | m :: _ => m < length (cf_roots c) end).
+  { intros pa Hpa. specialize (Hres pa Hpa). destruct pa as [|k r]; [exact I|]. simpl in Hres.
+    destruct (nth_error (cf_roots c) k) eqn:E; [|congruence]. apply nth_error_Some. rewrite E. discriminate. }
+  rewrite (len_partition _ Ps Hhead).
+  assert (Hn : nils Ps = 0).
+  { unfold nils. rewrite (proj2 (length_zero_iff_nil _)); [reflexivity|].
+    clear -Hres. induction Ps as [|pa Ps IH]; [reflexivity|]. simpl.
+    destruct pa; [exfalso; apply (Hres [] (or_introl eq_refl)); reflexivity|].
+    apply IH. intros q Hq. apply Hres. right. exact Hq. }
+  rewrite Hn. simpl. unfold call_total in *.
+  apply (sum_le_fold (fun r => tree_size (S (length p)) p (cf_maxcall c) (c_task r))). intros i r Hr. simpl.
+  apply (paths_below p (cf_maxcall c) (S (length p)) (c_task r) (eval_var 0 (c_var r)) LRoot);
+    [apply tails_nodup; exact Hnd| |].
+  - intros rest Hrest. apply tails_in in Hrest. specialize (Hres _ Hrest). simpl in Hres. rewrite Hr in Hres. exact Hres.
+  - pose proof (elem_le_fold (fun r => tree_size (S (length p)) p (cf_maxcall c) (c_task r)) _ _ _ Hr). lia.
+Qed.
+
+Lemma acts_bound p c s :
+  inv_phase p c s -> call_total p c < cf_maxcall c -> length (acts s) <= call_total p c.
+Proof.
+  intros Hph Hlt. rewrite <- (map_length a_path). apply paths_bound; [| |exact Hlt].
+  - rewrite <- paths_of_cs. apply (ip_uniq _ _ _ Hph).
+  - intros pa Hpa. apply in_map_iff in Hpa. destruct Hpa as [x [<- Hx]]. destruct (In_nth_error _ _ Hx) as [j Hj].
+    rewrite (inv_ids_get p c s j x (ip_ids _ _ _ Hph) Hj). discriminate.
+Qed.
+
+(* the call counters count activations that left PEntry *)
+Definition nonentry (q : pc) : bool := match q with PEntry => false | _ => true end.
+Lemma pcf_gerr x e : a_pc (set_gerr x e) = a_pc x. Proof. reflexivity. Qed.
+
+Definition calls_ok (s : state) : Prop := list_sum (calls s) <= count nonentry (pj a_pc s).
+
+Lemma list_sum_upd_S l t : list_sum (upd l t (S (nth t l 0))) <= S (list_sum l).
+Proof. revert t; induction l as [|x l IH]; intros [|t]; simpl; try lia. specialize (IH t). lia. Qed.
+
+Lemma nth_le_list_sum l t : nth t l 0 <= list_sum l.
+Proof. revert t; induction l as [|x l IH]; intros [|t]; simpl; try lia. specialize (IH t). lia. Qed.
+
+Lemma count_lt {A} (f : A -> bool) l a q : nth_error l a = Some q -> f q = false -> count f l < length l.
+Proof.
+  revert a; induction l as [|y l IH]; intros [|a] Hn Hf; simpl in *; try discriminate; rewrite count_cons.
+  - injection Hn as ->. rewrite Hf. pose proof (count_le_length f l). simpl. lia.
+  - specialize (IH a Hn Hf). destruct (f y); simpl; lia.
+Qed.
+
+Lemma calls_notify s x r : calls (notify_parent s x r) = calls s.
+Proof.
+  unfold notify_parent. destruct (a_kind x); try reflexivity.
+  destruct (a_parent x) as [pa|]; try reflexivity. destruct r as [|e]; try reflexivity.
+  destruct (get_act s pa) as [px|]; try reflexivity. destruct (a_gerr px); try reflexivity.
+  unfold cancel_ctx. simpl. destruct (nth_error _ _); reflexivity.
+Qed.
+
+Lemma calls_cancel s k : calls (cancel_ctx s k) = calls s.
+Proof. unfold cancel_ctx. destruct (nth_error (ctxs s) k); reflexivity. Qed.
+
+Lemma calls_finish s a x r : calls (finish s a x r) = calls s.
+Proof.
+  unfold finish.
+  assert (E : calls (notify_parent (emit (set_act s a (set_pc x (PDone r))) (EvEnd (a_path x) r)) x r) = calls s)
+    by (rewrite calls_notify; reflexivity).
+  destruct (a_kind x); try exact E. destruct r; [|destruct (rungerr _)]; rewrite ?calls_cancel; exact E.
+Qed.
+
+Lemma calls_acquire c s : calls (acquire c s) = calls s.
+Proof. unfold acquire. destruct (limited c); reflexivity. Qed.
+Lemma calls_release c s : calls (release c s) = calls s.
+Proof. unfold release. destruct (limited c); reflexivity. Qed.
+
+Lemma calls_move s s' a q q' news :
+  nth_error (pj a_pc s) a = Some q ->
+  pj a_pc s' = upd (pj a_pc s) a q' ++ news -> Forall (eq PEntry) news -> nonentry q' = true ->
+  (calls s' = calls s \/ (q = PEntry /\ list_sum (calls s') <= S (list_sum (calls s)))) ->
+  calls_ok s -> calls_ok s'.
+Proof.
+  unfold calls_ok. intros Hn Hp Hnews Hq' Hc H. rewrite Hp, count_app.
+  pose proof (count_upd nonentry (pj a_pc s) a q q' Hn) as Hcu. rewrite Hq' in Hcu. simpl in Hcu.
+  destruct Hc as [->|[-> Hle]]; [destruct (nonentry q)|]; simpl in Hcu; lia.
+Qed.
+
+Global Hint Rewrite (pj_set_act a_pc) (pj_emit a_pc) (pj_cancel a_pc) (pj_acquire a_pc) (pj_release a_pc)
+  (pj_finish a_pc pcf_gerr) : pcdb.
+
+Lemma step_calls_ok p c s a s' : calls_ok s -> step p c s a = Some s' -> calls_ok s'.
+Proof.
+  intros Hinv H.
+  destruct (get_act s a) as [x|] eqn:Hx; [|unfold step in H; rewrite Hx in H; discriminate].
+  pose proof (pj_nth a_pc _ _ _ Hx) as Hn. pose proof (pj_lt a_pc _ _ _ Hx) as Hlt.
+  step_cases H Hx;
+    try (eapply calls_move with (a := a) (news := []);
+         [ exact Hn
+         | autorewrite with pcdb; simpl; rewrite ?app_nil_r; reflexivity
+         | constructor
+         | reflexivity
+         | rewrite ?calls_finish; simpl; rewrite ?calls_acquire, ?calls_release, ?calls_cancel;
+           first [left; reflexivity | right; split; [exact Hpc|apply list_sum_upd_S]]
+         | exact Hinv ]).
+  - (* the call counter trips *)
+    eapply calls_move with (a := a) (news := []);
+      [exact Hn|rewrite (pj_finish a_pc pcf_gerr); rewrite app_nil_r; reflexivity|constructor|reflexivity| |exact Hinv].
+    rewrite calls_finish. simpl. right. split; [reflexivity|apply list_sum_upd_S].
+  - eapply calls_move with (a := a) (news := []);
+      [exact Hn|rewrite (pj_set_act a_pc); rewrite app_nil_r; reflexivity|constructor|reflexivity| |exact Hinv].
+    simpl. right. split; [reflexivity|apply list_sum_upd_S].
+  - (* fork *)
+    pose proof (fork_deps_spec p _ _ _ _ _ _ _ _ Heqp0) as Hspec.
+    destruct Hspec as [news (Ha & _ & _ & _ & Hcalls & _ & _ & _ & _ & _ & Hf & _)]. simpl in Ha, Hcalls.
+    eapply calls_move with (a := a) (news := map a_pc news);
+      [exact Hn
+      |unfold pj at 1; rewrite acts_set_act, map_upd, Ha, release_acts, map_app; rewrite upd_app_l by exact Hlt; reflexivity
+      | |reflexivity| |exact Hinv].
+    + apply Forall_forall. intros q Hq. apply in_map_iff in Hq. destruct Hq as [y [<- Hy]].
+      rewrite Forall_forall in Hf. destruct (Hf y Hy) as (-> & _). reflexivity.
+    + left. simpl. rewrite Hcalls. apply calls_release.
+  - eapply calls_move with (a := a) (news := [PEntry]);
+      [exact Hn
+      |unfold pj at 1; rewrite acts_set_act, map_upd; simpl; rewrite release_acts, map_app; rewrite upd_app_l by exact Hlt; reflexivity
+      |repeat constructor|reflexivity| |exact Hinv].
+    left. simpl. apply calls_release.
+  - eapply calls_move with (a := a) (news := [PEntry]);
+      [exact Hn
+      |unfold pj at 1; rewrite acts_set_act, map_upd; simpl; rewrite release_acts, map_app; rewrite upd_app_l by exact Hlt; reflexivity
+      |repeat constructor|reflexivity| |exact Hinv].
+    left. simpl. apply calls_release.
+Qed.
+
+
+Lemma start_root_calls_ok p c s k s' : calls_ok s -> start_root p c s k = Some s' -> calls_ok s'.
+Proof.
+  intros Hinv H. unfold start_root in H.
+  destruct (nth_error (cf_roots c) k) as [cl|]; [|discriminate].
+  destruct (negb (precheck_ok p c) || root_started s k); [discriminate|].
+  match type of H with (if ?b then _ else _) = _ => destruct b end; [|discriminate].
+  injection H as <-. unfold calls_ok, add_act, pj in *. simpl. rewrite map_app, count_app.
+  simpl. unfold count at 2. simpl. lia.
+Qed.
+
+Lemma calls_ok_init p : calls_ok (init_state p).
+Proof.
+  unfold calls_ok. simpl. assert (E : list_sum (repeat 0 (length p)) = 0) by (induction (length p); simpl; auto).
+  rewrite E. lia.
+Qed.
+
+Lemma all_states_inv (I Q : state -> Prop) p c :
+  (forall s ch, I s -> I (do_choice p c s ch)) -> (forall s, I s -> Q s) ->
+  forall sched s, I s -> all_states Q p c s sched.
+Proof.
+  intros Hstep HQ. induction sched as [|ch sched IH]; intros s Hs; simpl; (split; [apply HQ; exact Hs|auto]).
+Qed.
+
+
+Lemma callcount_safe_all p c sched :
+  callcount_possible p c = false -> all_states (callcount_safe c) p c (init_state p) sched.
+Proof.
+  intros Hcp. apply callcount_possible_false in Hcp.
+  apply (all_states_inv (fun s => inv_phase p c s /\ calls_ok s)).
+  - intros s ch [Hph Hc]. destruct ch as [a|k]; simpl.
+    + destruct (step p c s a) eqn:E; [|split; assumption].
+      split; [eapply step_inv_phase; eauto|eapply step_calls_ok; eauto].
+    + destruct (start_root p c s k) eqn:E; [|split; assumption].
+      split; [eapply start_root_inv_phase; eauto|eapply start_root_calls_ok; eauto].
+  - intros s [Hph Hc] a x Hx [Hpc Htrip]. apply Nat.leb_le in Htrip.
+    pose proof (acts_bound p c s Hph Hcp) as Hb. unfold calls_ok in Hc.
+    pose proof (nth_le_list_sum (calls s) (a_task x)) as Hn.
+    pose proof (pj_nth a_pc _ _ _ Hx) as Hq. rewrite Hpc in Hq.
+    pose proof (count_lt nonentry _ _ _ Hq eq_refl) as Hlt. unfold pj in Hlt at 2. rewrite map_length in Hlt. lia.
+  - split; [apply inv_phase_init|apply calls_ok_init].
+Qed.
+
+(* when the monitor's static excuse applies (a task can fail through a guard, or the expanded call
+   tree is large enough for the call counter to trip) the EXIT_CODE conjunct only asks for
+   "own exit status or unset" *)
+Theorem exit_codes_static p c sched :
+  negb (no_guard_errors p c) || callcount_possible p c = true ->
+  mon_C14_exit p c (trace (run p c sched)) = true.
+Proof.
+  intros Hs. apply forallb_forall. intros a Ha. apply exit_codes_ok_if_foreign; [exact Ha|].
+  unfold foreign_failure. rewrite Hs. reflexivity.
+Qed.
+
+(* ------------------------------------------------------------------ *)
+(* C14, all programs, all configurations, all schedules                 *)
+
+Theorem exit_codes_all_schedules p c sched : mon_C14_exit p c (trace (run p c sched)) = true.
+Proof.
+  destruct (callcount_possible p c) eqn:Ec.
+  - apply exit_codes_static. rewrite Ec. apply orb_true_r.
+  - apply exit_codes_safe. apply callcount_safe_all. exact Ec.
+Qed.
+
+(* (1) safety: every reachable state *)
+Theorem defer_safety p c sched : mon_C14 p c false (trace (run p c sched)) = true.
+Proof. rewrite mon_C14_split, defer_safety_noexit, exit_codes_all_schedules. reflexivity. Qed.
+
+(* (2) completeness: completed runs *)
+Theorem defer_complete p c sched r :
+  run_result p c (run p c sched) = Some r -> mon_C14 p c true (trace (run p c sched)) = true.
+Proof.
+  intros Hr. rewrite mon_C14_split, (defer_complete_noexit p c sched r Hr), exit_codes_all_schedules. reflexivity.
+Qed.
+
+Theorem defer_safety_observable p c sched : mon_C14 p c false (filter observable (trace (run p c sched))) = true.
+Proof. rewrite mon_C14_observable. apply defer_safety. Qed.
+
+Theorem defer_complete_observable p c sched r :
+  run_result p c (run p c sched) = Some r -> mon_C14 p c true (filter observable (trace (run p c sched))) = true.
+Proof. intros Hr. rewrite mon_C14_observable. apply (defer_complete p c sched r Hr). Qed.
